@@ -1,15 +1,2735 @@
-//! Engine `plan` — not built yet (stub).
+//! Engine `plan` (C06): the chosen plan never changes the answer — pair mode through the public API.
+//!
+//! A case line carries a database, a list of unique indexes and a history (syntax in `lean/AxVerif/Driver/Plan.lean`):
+//!
+//!   plan <DB> <IX> | OP ; OP ; …
+//!
+//! `exec` builds the database twice — **early**: indexes created on the empty tables, rows loaded through INSERT
+//! (index maintenance path); **late**: rows loaded first, indexes created at the `mkix` op (population path) — runs
+//! the history on both and every query in several semantically identical forms that force different plans:
+//!
+//!   a  as written (early database)
+//!   b  every indexed column wrapped as `(col + 0)`, which the binder does not see through: no index applies
+//!   c  join operands permuted (LEFT <-> RIGHT), ON conjuncts reordered and, for all-inner joins, re-distributed
+//!   e  as written on the late database (after `mkix`)
+//!   d  the same query again after an `analyze` op of the history (different statistics)
+//!
+//! All forms must return the same canonical result; the answer line is `same <result>` per query (or
+//! `PROPFAIL variant=<x> …`), and the Lean reference evaluator must produce the same line.  `Database::explain` of
+//! every form is recorded after ` ## ` (plan-shape digests) so that one can see the forms really use different plans.
+use super::sql::{
+    E, From, Select, Stmt, Table, Ty, Val, install_worker_panic_recorder, parse_case, show_db, show_stmt, show_val,
+    sql_expr, take_worker_panic,
+};
 use super::{Case, Engine, Tier};
 use crate::rng::Rng;
+use axmosdb::{DBConfig, DataType, Database, runtime::QueryResult, tcp::session::Session};
+use std::collections::{BTreeMap, BTreeSet};
 
 pub struct PlanEngine;
 
-impl Engine for PlanEngine {
-    fn gen_cases(&self, _rng: &mut Rng, _tier: Tier) -> Vec<Case> {
-        Vec::new()
+// ------------------------------------------------------------------------------------------------ case
+
+#[derive(Clone, Debug, PartialEq)]
+pub struct Ix {
+    pub table: usize,
+    pub cols: Vec<usize>,
+}
+
+#[derive(Clone, Debug)]
+pub enum Op {
+    Stmt(Stmt),
+    Begin,
+    Rollback,
+    Commit,
+    Vacuum,
+    /// sample rate in permille, maximal number of sampled rows
+    Analyze(u32, usize),
+    MkIx,
+}
+
+fn show_ixs(ixs: &[Ix]) -> String {
+    if ixs.is_empty() {
+        return "-".into();
     }
-    fn exec(&mut self, _line: &str) -> String {
-        "unimplemented".into()
+    ixs.iter()
+        .map(|x| format!("{}:{}", x.table, x.cols.iter().map(|c| c.to_string()).collect::<Vec<_>>().join("+")))
+        .collect::<Vec<_>>()
+        .join(",")
+}
+
+fn parse_ixs(w: &str) -> Option<Vec<Ix>> {
+    if w == "-" {
+        return Some(vec![]);
+    }
+    let mut out = Vec::new();
+    for part in w.split(',') {
+        let (t, cs) = part.split_once(':')?;
+        let dec = |s: &str| -> Option<usize> {
+            if s.is_empty() || !s.bytes().all(|b| b.is_ascii_digit()) { None } else { s.parse().ok() }
+        };
+        let cols: Option<Vec<usize>> = cs.split('+').map(dec).collect();
+        let cols = cols?;
+        if cols.is_empty() {
+            return None;
+        }
+        out.push(Ix { table: dec(t)?, cols });
+    }
+    Some(out)
+}
+
+fn show_op(op: &Op) -> String {
+    match op {
+        Op::Stmt(s) => show_stmt(s),
+        Op::Begin => "begin".into(),
+        Op::Rollback => "rollback".into(),
+        Op::Commit => "commit".into(),
+        Op::Vacuum => "vacuum".into(),
+        Op::Analyze(r, m) => format!("analyze {} {}", r, m),
+        Op::MkIx => "mkix".into(),
+    }
+}
+
+pub fn show_case(db: &[Table], ixs: &[Ix], ops: &[Op]) -> String {
+    format!("plan {} {} | {}", show_db(db), show_ixs(ixs), ops.iter().map(show_op).collect::<Vec<_>>().join(" ; "))
+}
+
+fn parse_plan_case(line: &str) -> Option<(Vec<Table>, Vec<Ix>, Vec<Op>)> {
+    let ws: Vec<&str> = line.split_whitespace().collect();
+    if ws.len() < 5 || ws[0] != "plan" || ws[3] != "|" {
+        return None;
+    }
+    let ixs = parse_ixs(ws[2])?;
+    let mut ops = Vec::new();
+    let mut tables: Option<Vec<Table>> = None;
+    for part in ws[4..].split(|w| *w == ";") {
+        let op = match part {
+            ["begin"] => Op::Begin,
+            ["rollback"] => Op::Rollback,
+            ["commit"] => Op::Commit,
+            ["vacuum"] => Op::Vacuum,
+            ["mkix"] => Op::MkIx,
+            ["analyze", r, m] => {
+                let ok = |s: &str| !s.is_empty() && s.len() < 8 && s.bytes().all(|b| b.is_ascii_digit());
+                if !ok(r) || !ok(m) {
+                    return None;
+                }
+                Op::Analyze(r.parse().ok()?, m.parse().ok()?)
+            }
+            _ => {
+                // one SQL statement in the syntax of engine `sql`: parsed by that engine's parser
+                let l = format!("sql {} ; {}", ws[1], part.join(" "));
+                let (db, mut stmts) = parse_case(&l)?;
+                if tables.is_none() {
+                    tables = Some(db);
+                }
+                Op::Stmt(stmts.pop()?)
+            }
+        };
+        ops.push(op);
+    }
+    let tables = match tables {
+        Some(t) => t,
+        None => parse_case(&format!("sql {} ; del t0 -", ws[1]))?.0,
+    };
+    for x in &ixs {
+        let t = tables.get(x.table)?;
+        if x.cols.iter().any(|c| *c >= t.tys.len()) {
+            return None;
+        }
+    }
+    Some((tables, ixs, ops))
+}
+
+// ------------------------------------------------------------------------------------------------ SQL text of the variants
+
+fn sql_ty(t: Ty) -> &'static str {
+    match t {
+        Ty::Int => "INT",
+        Ty::BigInt => "BIGINT",
+        Ty::Bool => "BOOLEAN",
+        Ty::Text => "TEXT",
+    }
+}
+
+fn sql_lit(v: &Val) -> String {
+    match v {
+        Val::Null => "NULL".into(),
+        Val::Int(i) => i.to_string(),
+        Val::Bool(b) => if *b { "TRUE".into() } else { "FALSE".into() },
+        Val::Text(s) => format!("'{}'", String::from_utf8_lossy(s).replace('\'', "''")),
+        Val::F64(b) => format!("{:e}", f64::from_bits(*b)),
+    }
+}
+
+/// leaves of a FROM tree, left to right: (table, first column index in the joined row)
+fn leaves(f: &From, db: &[Table], out: &mut Vec<(usize, usize)>, width: &mut usize) {
+    match f {
+        From::Table(t) => {
+            out.push((*t, *width));
+            *width += db.get(*t).map(|t| t.tys.len()).unwrap_or(0);
+        }
+        From::Join(_, l, r, _) => {
+            leaves(l, db, out, width);
+            leaves(r, db, out, width);
+        }
+    }
+}
+
+fn leaves_of(f: &From, db: &[Table]) -> (Vec<(usize, usize)>, usize) {
+    let mut ls = Vec::new();
+    let mut w = 0;
+    leaves(f, db, &mut ls, &mut w);
+    (ls, w)
+}
+
+fn from_tys(f: &From, db: &[Table]) -> Vec<Ty> {
+    let (ls, _) = leaves_of(f, db);
+    ls.iter().flat_map(|(t, _)| db.get(*t).map(|t| t.tys.clone()).unwrap_or_default()).collect()
+}
+
+#[derive(Clone, Copy, PartialEq, Eq, Debug)]
+pub enum Variant {
+    AsWritten,
+    /// indexed columns wrapped
+    NoIndex,
+    /// join operands permuted; the number seeds the permutation
+    Permuted(u64),
+    /// every table replaced by a derived table `(SELECT <its columns, permuted> FROM t [WHERE …]) AS r`; for a single
+    /// table the first conjuncts of WHERE move inside (Filter over Project over Filter: filter push-down through a
+    /// projection, filter merge)
+    Derived(u64),
+}
+
+fn is_int(t: Ty) -> bool {
+    matches!(t, Ty::Int | Ty::BigInt)
+}
+
+/// column name printer for a FROM clause: joined-row index -> `r<leaf>.c<col>`, wrapped when asked for
+fn col_printer<'a>(
+    ls: &'a [(usize, usize)],
+    db: &'a [Table],
+    ixs: &'a [Ix],
+    wrap: bool,
+) -> impl Fn(usize) -> String + 'a {
+    move |i: usize| -> String {
+        for (k, (t, start)) in ls.iter().enumerate().rev() {
+            if i >= *start {
+                let c = i - start;
+                let name = format!("r{}.c{}", k, c);
+                let indexed = ixs.iter().any(|x| x.table == *t && x.cols.contains(&c));
+                let ty = db.get(*t).and_then(|tb| tb.tys.get(c)).copied();
+                if wrap && indexed && ty.map(is_int).unwrap_or(false) {
+                    return format!("({} + 0)", name);
+                }
+                return name;
+            }
+        }
+        format!("r0.c{}", i)
+    }
+}
+
+fn conjuncts(e: &E, out: &mut Vec<E>) {
+    match e {
+        E::And(a, b) => {
+            conjuncts(a, out);
+            conjuncts(b, out);
+        }
+        _ => out.push(e.clone()),
+    }
+}
+
+fn conj(mut es: Vec<E>) -> Option<E> {
+    if es.is_empty() {
+        return None;
+    }
+    let first = es.remove(0);
+    Some(es.into_iter().fold(first, |a, b| E::And(Box::new(a), Box::new(b))))
+}
+
+fn expr_cols(e: &E, out: &mut Vec<usize>) {
+    match e {
+        E::Lit(_) => {}
+        E::Col(i) => out.push(*i),
+        E::Not(a) | E::Neg(a) | E::Pos(a) | E::IsNull(_, a) => expr_cols(a, out),
+        E::And(a, b) | E::Or(a, b) | E::Cmp(_, a, b) | E::Arith(_, a, b) | E::Like(_, a, b) => {
+            expr_cols(a, out);
+            expr_cols(b, out)
+        }
+        E::Between(_, a, b, c) => {
+            expr_cols(a, out);
+            expr_cols(b, out);
+            expr_cols(c, out)
+        }
+        E::InList(_, a, xs) => {
+            expr_cols(a, out);
+            for x in xs {
+                expr_cols(x, out)
+            }
+        }
+    }
+}
+
+fn join_kw(k: &str) -> &'static str {
+    match k {
+        "inner" => "INNER JOIN",
+        "left" => "LEFT JOIN",
+        "right" => "RIGHT JOIN",
+        "full" => "FULL JOIN",
+        _ => "CROSS JOIN",
+    }
+}
+
+/// (kind, ON) of every join of a left-deep tree, innermost first; `None` if the tree is not left-deep
+fn left_deep(f: &From) -> Option<(usize, Vec<(&'static str, Option<E>)>)> {
+    match f {
+        From::Table(t) => Some((*t, vec![])),
+        From::Join(k, l, r, on) => {
+            if !matches!(**r, From::Table(_)) {
+                return None;
+            }
+            let (t, mut js) = left_deep(l)?;
+            js.push((*k, on.clone()));
+            Some((t, js))
+        }
+    }
+}
+
+/// FROM clause as written
+fn sql_from_plain(f: &From, next: &mut usize, col: &dyn Fn(usize) -> String) -> String {
+    match f {
+        From::Table(t) => {
+            let s = format!("t{} AS r{}", t, *next);
+            *next += 1;
+            s
+        }
+        From::Join(k, l, r, on) => {
+            let ls = sql_from_plain(l, next, col);
+            let rs = sql_from_plain(r, next, col);
+            match on {
+                Some(e) => format!("{} {} {} ON {}", ls, join_kw(k), rs, sql_expr(e, 1, col)),
+                None => format!("{} {} {}", ls, join_kw(k), rs),
+            }
+        }
+    }
+}
+
+/// FROM clause with the operands permuted.  Aliases keep their meaning (r<k> = k-th leaf of the tree as written), so
+/// every expression of the statement is printed unchanged.
+///  * all joins INNER/CROSS: the leaves in a seeded random order, every ON conjunct attached to the first join at which
+///    all its aliases are available (conjuncts that can be placed nowhere go to WHERE; returned);
+///  * otherwise: the two operands of the innermost join are swapped (LEFT <-> RIGHT) and its ON conjuncts reversed.
+fn sql_from_permuted(
+    f: &From,
+    db: &[Table],
+    seed: u64,
+    col: &dyn Fn(usize) -> String,
+) -> Option<(String, Vec<E>)> {
+    let (ls, _) = leaves_of(f, db);
+    let (_, joins) = left_deep(f)?;
+    if joins.is_empty() {
+        return None;
+    }
+    let n = ls.len();
+    let leaf_of_col = |c: usize| -> usize {
+        for (k, (_, start)) in ls.iter().enumerate().rev() {
+            if c >= *start {
+                return k;
+            }
+        }
+        0
+    };
+    let all_inner = joins.iter().all(|(k, _)| *k == "inner" || *k == "cross");
+    if all_inner {
+        let mut order: Vec<usize> = (0..n).collect();
+        let mut rng = Rng::new(seed);
+        // a permutation different from the identity
+        for _ in 0..4 {
+            rng.shuffle(&mut order);
+            if order.iter().enumerate().any(|(i, k)| i != *k) {
+                break;
+            }
+        }
+        if order.iter().enumerate().all(|(i, k)| i == *k) {
+            order.reverse();
+        }
+        let mut cs: Vec<E> = Vec::new();
+        for (_, on) in &joins {
+            if let Some(e) = on {
+                conjuncts(e, &mut cs);
+            }
+        }
+        cs.reverse();
+        let mut placed = vec![false; cs.len()];
+        let mut avail: BTreeSet<usize> = BTreeSet::new();
+        avail.insert(order[0]);
+        let mut s = format!("t{} AS r{}", ls[order[0]].0, order[0]);
+        for &k in &order[1..] {
+            avail.insert(k);
+            let mut here = Vec::new();
+            for (i, c) in cs.iter().enumerate() {
+                if placed[i] {
+                    continue;
+                }
+                let mut cols = Vec::new();
+                expr_cols(c, &mut cols);
+                if cols.iter().all(|c| avail.contains(&leaf_of_col(*c))) {
+                    placed[i] = true;
+                    here.push(c.clone());
+                }
+            }
+            match conj(here) {
+                Some(e) => s += &format!(" INNER JOIN t{} AS r{} ON {}", ls[k].0, k, sql_expr(&e, 1, col)),
+                None => s += &format!(" CROSS JOIN t{} AS r{}", ls[k].0, k),
+            }
+        }
+        let rest: Vec<E> = cs.iter().zip(&placed).filter(|(_, p)| !**p).map(|(c, _)| c.clone()).collect();
+        Some((s, rest))
+    } else {
+        // swap the operands of the innermost join
+        let (k0, on0) = &joins[0];
+        let k0s = match *k0 {
+            "left" => "right",
+            "right" => "left",
+            k => k,
+        };
+        let mut s = format!("t{} AS r1 {} t{} AS r0", ls[1].0, join_kw(k0s), ls[0].0);
+        if let Some(e) = on0 {
+            let mut cs = Vec::new();
+            conjuncts(e, &mut cs);
+            cs.reverse();
+            s += &format!(" ON {}", sql_expr(&conj(cs).unwrap(), 1, col));
+        }
+        for (i, (k, on)) in joins.iter().enumerate().skip(1) {
+            s += &format!(" {} t{} AS r{}", join_kw(k), ls[i + 1].0, i + 1);
+            if let Some(e) = on {
+                s += &format!(" ON {}", sql_expr(e, 1, col));
+            }
+        }
+        Some((s, vec![]))
+    }
+}
+
+/// FROM clause with derived tables; returns the conjuncts of a single-table WHERE that stay outside
+fn sql_from_derived(
+    f: &From,
+    db: &[Table],
+    seed: u64,
+    where_: &Option<E>,
+    col: &dyn Fn(usize) -> String,
+) -> (String, Option<Vec<E>>) {
+    let mut rng = Rng::new(seed);
+    let mut derived = |t: usize, k: usize, inner: Option<String>| -> String {
+        let n = db.get(t).map(|t| t.tys.len()).unwrap_or(0);
+        let mut order: Vec<usize> = (0..n).collect();
+        rng.shuffle(&mut order);
+        let cols: Vec<String> = order.iter().map(|c| format!("c{}", c)).collect();
+        match inner {
+            Some(w) => format!("(SELECT {} FROM t{} WHERE {}) AS r{}", cols.join(", "), t, w, k),
+            None => format!("(SELECT {} FROM t{}) AS r{}", cols.join(", "), t, k),
+        }
+    };
+    match f {
+        From::Table(t) => {
+            // single table: the first half of the conjuncts (at least one) is applied inside the derived table
+            let mut outside = None;
+            let mut inner = None;
+            if let Some(w) = where_ {
+                let mut cs = Vec::new();
+                conjuncts(w, &mut cs);
+                let k = cs.len().div_ceil(2);
+                let plain = |i: usize| format!("c{}", i);
+                inner = conj(cs[..k].to_vec()).map(|e| sql_expr(&e, 1, &plain));
+                outside = Some(cs[k..].to_vec());
+            }
+            (derived(*t, 0, inner), outside)
+        }
+        _ => {
+            fn go(
+                f: &From,
+                next: &mut usize,
+                derived: &mut dyn FnMut(usize, usize, Option<String>) -> String,
+                col: &dyn Fn(usize) -> String,
+            ) -> String {
+                match f {
+                    From::Table(t) => {
+                        let s = derived(*t, *next, None);
+                        *next += 1;
+                        s
+                    }
+                    From::Join(k, l, r, on) => {
+                        let ls = go(l, next, derived, col);
+                        let rs = go(r, next, derived, col);
+                        match on {
+                            Some(e) => format!("{} {} {} ON {}", ls, join_kw(k), rs, sql_expr(e, 1, col)),
+                            None => format!("{} {} {}", ls, join_kw(k), rs),
+                        }
+                    }
+                }
+            }
+            let mut next = 0;
+            (go(f, &mut next, &mut derived, col), None)
+        }
+    }
+}
+
+/// SQL text of a SELECT in the given form; `None` if the form does not exist for this query
+pub fn select_sql(q: &Select, db: &[Table], ixs: &[Ix], v: Variant) -> Option<String> {
+    let (ls, w) = leaves_of(&q.from, db);
+    let wrap = v == Variant::NoIndex;
+    if wrap {
+        // the form exists only if some indexed integer column belongs to a table of the query
+        let any = ls.iter().any(|(t, _)| {
+            ixs.iter().any(|x| x.table == *t && x.cols.iter().any(|c| db[*t].tys.get(*c).copied().map(is_int).unwrap_or(false)))
+        });
+        if !any {
+            return None;
+        }
+    }
+    let col = col_printer(&ls, db, ixs, wrap);
+    let mut where_override: Option<Vec<E>> = None;
+    let (from_sql, extra_where) = match v {
+        Variant::Permuted(seed) => sql_from_permuted(&q.from, db, seed, &col)?,
+        Variant::Derived(seed) => {
+            let (s, outside) = sql_from_derived(&q.from, db, seed, &q.where_, &col);
+            where_override = outside;
+            (s, vec![])
+        }
+        _ => {
+            let mut next = 0;
+            (sql_from_plain(&q.from, &mut next, &col), vec![])
+        }
+    };
+    let out_exprs: Vec<String>;
+    let items: String = if !q.aggs.is_empty() {
+        let mut parts: Vec<String> = q.group_by.iter().map(|e| sql_expr(e, 1, &col)).collect();
+        for a in &q.aggs {
+            parts.push(match (a.f, &a.arg) {
+                ("cnt*", _) | (_, None) => "COUNT(*)".to_string(),
+                ("cnt", Some(e)) => format!("COUNT({})", sql_expr(e, 1, &col)),
+                ("sum", Some(e)) => format!("SUM({})", sql_expr(e, 1, &col)),
+                ("avg", Some(e)) => format!("AVG({})", sql_expr(e, 1, &col)),
+                ("min", Some(e)) => format!("MIN({})", sql_expr(e, 1, &col)),
+                (_, Some(e)) => format!("MAX({})", sql_expr(e, 1, &col)),
+            });
+        }
+        out_exprs = parts.clone();
+        parts.join(", ")
+    } else {
+        match &q.items {
+            None => {
+                // `*` of a permuted FROM would list the columns in another order: name them.  (Never wrapped.)
+                let plain = col_printer(&ls, db, ixs, false);
+                out_exprs = (0..w).map(&plain).collect();
+                if matches!(v, Variant::Permuted(_) | Variant::Derived(_)) { out_exprs.join(", ") } else { "*".to_string() }
+            }
+            Some(es) => {
+                out_exprs = es.iter().map(|e| sql_expr(e, 1, &col)).collect();
+                out_exprs.join(", ")
+            }
+        }
+    };
+    let mut sql = format!("SELECT {}{} FROM {}", if q.distinct { "DISTINCT " } else { "" }, items, from_sql);
+    let mut wh: Vec<E> = Vec::new();
+    match where_override {
+        Some(outside) => wh.extend(outside),
+        None => {
+            if let Some(e) = &q.where_ {
+                wh.push(e.clone());
+            }
+        }
+    }
+    wh.extend(extra_where);
+    if let Some(e) = conj(wh) {
+        sql += &format!(" WHERE {}", sql_expr(&e, 1, &col));
+    }
+    if !q.group_by.is_empty() {
+        sql += &format!(" GROUP BY {}", q.group_by.iter().map(|e| sql_expr(e, 1, &col)).collect::<Vec<_>>().join(", "));
+    }
+    if !q.order_by.is_empty() {
+        let parts: Vec<String> = q
+            .order_by
+            .iter()
+            .map(|(p, asc)| {
+                format!("{}{}", out_exprs.get(*p).cloned().unwrap_or_else(|| "NULL".into()), if *asc { "" } else { " DESC" })
+            })
+            .collect();
+        sql += &format!(" ORDER BY {}", parts.join(", "));
+    }
+    if let Some(l) = q.limit {
+        sql += &format!(" LIMIT {}", l);
+    }
+    if let Some(o) = q.offset {
+        sql += &format!(" OFFSET {}", o);
+    }
+    Some(sql)
+}
+
+/// SQL text of a DML statement (`wrap`: indexed integer columns of the WHERE clause wrapped; not used for running)
+pub fn dml_sql(s: &Stmt) -> String {
+    let col = |i: usize| format!("c{}", i);
+    match s {
+        Stmt::Select(_) => String::new(),
+        Stmt::Insert(t, rows) => {
+            let rs: Vec<String> = rows
+                .iter()
+                .map(|r| format!("({})", r.iter().map(|e| sql_expr(e, 1, &col)).collect::<Vec<_>>().join(", ")))
+                .collect();
+            format!("INSERT INTO t{} VALUES {}", t, rs.join(", "))
+        }
+        Stmt::Update(t, sets, w) => {
+            let ss: Vec<String> = sets.iter().map(|(c, e)| format!("c{} = {}", c, sql_expr(e, 1, &col))).collect();
+            let mut sql = format!("UPDATE t{} SET {}", t, ss.join(", "));
+            if let Some(w) = w {
+                sql += &format!(" WHERE {}", sql_expr(w, 1, &col));
+            }
+            sql
+        }
+        Stmt::Delete(t, w) => {
+            let mut sql = format!("DELETE FROM t{}", t);
+            if let Some(w) = w {
+                sql += &format!(" WHERE {}", sql_expr(w, 1, &col));
+            }
+            sql
+        }
+    }
+}
+
+// ------------------------------------------------------------------------------------------------ running
+
+/// Error classes, read from the prefixes the error enums' `Display` implementations produce (never the detail text).
+fn err_class(msg: &str) -> &'static str {
+    if msg.contains("Task channel closed") {
+        "panic"
+    } else if msg.contains("preparation error parse error") {
+        "parse"
+    } else if msg.contains("preparation error binder error") {
+        "bind"
+    } else if msg.contains("division by zero") {
+        "divzero"
+    } else if msg.contains("integer overflow") {
+        "overflow"
+    } else if msg.contains("column index out of bounds") {
+        "eval"
+    } else if msg.contains("runtime error: type error") || msg.contains("Type error:") {
+        "type"
+    } else if msg.contains("constraint validation error") {
+        "constraint"
+    } else {
+        "other"
+    }
+}
+
+fn canon_f64(f: f64) -> Val {
+    if f.fract() == 0.0 && f.abs() < 9.2e18 { Val::Int(f as i128) } else { Val::F64(f.to_bits()) }
+}
+
+fn canon_val(v: &DataType) -> Val {
+    match v {
+        DataType::Null => Val::Null,
+        DataType::Bool(b) => Val::Bool(b.0),
+        DataType::Int(i) => Val::Int(i.0 as i128),
+        DataType::BigInt(i) => Val::Int(i.0 as i128),
+        DataType::UInt(i) => Val::Int(i.0 as i128),
+        DataType::BigUInt(i) => Val::Int(i.0 as i128),
+        DataType::Float(f) => canon_f64(f.0 as f64),
+        DataType::Double(f) => canon_f64(f.0),
+        DataType::Blob(b) => Val::Text(b.data().map(|d| d.to_vec()).unwrap_or_default()),
+    }
+}
+
+fn rank(v: &Val) -> u8 {
+    match v {
+        Val::Bool(_) => 0,
+        Val::Int(_) | Val::F64(_) => 1,
+        Val::Text(_) => 2,
+        Val::Null => 3,
+    }
+}
+
+/// the spec comparator of ORDER BY keys: NULL is the largest value; DESC reverses
+fn cmp_key(asc: bool, a: &Val, b: &Val) -> std::cmp::Ordering {
+    use std::cmp::Ordering::*;
+    let o = match (a, b) {
+        (Val::Null, Val::Null) => Equal,
+        (Val::Null, _) => Greater,
+        (_, Val::Null) => Less,
+        (Val::Int(x), Val::Int(y)) => x.cmp(y),
+        (Val::Bool(x), Val::Bool(y)) => x.cmp(y),
+        (Val::Text(x), Val::Text(y)) => x.cmp(y),
+        (x, y) => rank(x).cmp(&rank(y)),
+    };
+    if asc { o } else { o.reverse() }
+}
+
+fn is_sorted(rows: &[Vec<Val>], order: &[(usize, bool)]) -> bool {
+    rows.windows(2).all(|w| {
+        for (p, asc) in order {
+            let (a, b) = (w[0].get(*p).unwrap_or(&Val::Null), w[1].get(*p).unwrap_or(&Val::Null));
+            match cmp_key(*asc, a, b) {
+                std::cmp::Ordering::Less => return true,
+                std::cmp::Ordering::Greater => return false,
+                _ => {}
+            }
+        }
+        true
+    })
+}
+
+fn show_rows(rows: &[Vec<Val>], canonical: bool) -> String {
+    let mut ss: Vec<String> = rows.iter().map(|r| r.iter().map(show_val).collect::<Vec<_>>().join(",")).collect();
+    if canonical {
+        ss.sort();
+    }
+    ss.join("|")
+}
+
+fn canon_result(r: Result<QueryResult, String>, q: Option<&Select>) -> String {
+    match r {
+        Err(e) => format!("E{}", err_class(&e)),
+        Ok(QueryResult::RowsAffected(n)) => format!("A{}", n),
+        Ok(QueryResult::Ddl(_)) => "Eother".into(),
+        Ok(QueryResult::Rows(rows)) => {
+            let rs: Vec<Vec<Val>> = rows.iterrows().map(|r| r.iter().map(canon_val).collect()).collect();
+            match q {
+                Some(q) if q.limit.is_some() || q.offset.is_some() => format!("Rlist:{}", show_rows(&rs, false)),
+                Some(q) if !q.order_by.is_empty() => {
+                    if is_sorted(&rs, &q.order_by) {
+                        format!("Rord:{}", show_rows(&rs, true))
+                    } else {
+                        format!("Runsorted:{}", show_rows(&rs, false))
+                    }
+                }
+                _ => format!("Rset:{}", show_rows(&rs, true)),
+            }
+        }
+    }
+}
+
+static SEQ: std::sync::atomic::AtomicU64 = std::sync::atomic::AtomicU64::new(0);
+
+/// `CREATE INDEX` prints a line on the process' stdout (a left-over debug `println!`), which is the protocol channel
+/// of `axh exec`: file descriptor 1 points to /dev/null while such a statement runs.
+fn with_stdout_muted<T>(f: impl FnOnce() -> T) -> T {
+
+    use std::io::Write;
+    let _ = std::io::stdout().flush();
+    unsafe {
+        let saved = libc::dup(1);
+        let null = libc::open(c"/dev/null".as_ptr(), libc::O_WRONLY);
+        if saved >= 0 && null >= 0 {
+            libc::dup2(null, 1);
+        }
+        let r = f();
+        let _ = std::io::stdout().flush();
+        if saved >= 0 && null >= 0 {
+            libc::dup2(saved, 1);
+        }
+        if saved >= 0 {
+            libc::close(saved);
+        }
+        if null >= 0 {
+            libc::close(null);
+        }
+        r
+    }
+}
+
+/// one database instance with an optional open session
+struct Inst {
+    db: Option<Database>,
+    sess: Option<Session>,
+    dir: std::path::PathBuf,
+    has_ix: bool,
+}
+
+impl Inst {
+    fn new() -> Inst {
+        let n = SEQ.fetch_add(1, std::sync::atomic::Ordering::Relaxed);
+        let dir = std::env::temp_dir().join(format!("axh-plan-{}-{}", std::process::id(), n));
+        let _ = std::fs::remove_dir_all(&dir);
+        std::fs::create_dir_all(&dir).unwrap();
+        let db = Database::create(dir.join("db"), DBConfig::default()).expect("create database");
+        Inst { db: Some(db), sess: None, dir, has_ix: false }
+    }
+    fn db(&self) -> &Database {
+        self.db.as_ref().unwrap()
+    }
+    /// statements go through the open session, if any
+    fn run(&mut self, sql: &str) -> Result<QueryResult, String> {
+        match self.sess.as_mut() {
+            Some(s) => s.execute(sql).map_err(|e| e.to_string()),
+            None => self.db().execute(sql).map_err(|e| e.to_string()),
+        }
+    }
+    fn create_tables(&mut self, tables: &[Table]) -> Result<(), String> {
+        for (k, t) in tables.iter().enumerate() {
+            let cols: Vec<String> = t.tys.iter().enumerate().map(|(i, ty)| format!("c{} {}", i, sql_ty(*ty))).collect();
+            self.run(&format!("CREATE TABLE t{} ({})", k, cols.join(", "))).map_err(|e| format!("create: {}", e))?;
+        }
+        Ok(())
+    }
+    fn load(&mut self, tables: &[Table]) -> Result<(), String> {
+        for (k, t) in tables.iter().enumerate() {
+            for chunk in t.rows.chunks(20) {
+                let rs: Vec<String> =
+                    chunk.iter().map(|r| format!("({})", r.iter().map(sql_lit).collect::<Vec<_>>().join(", "))).collect();
+                self.run(&format!("INSERT INTO t{} VALUES {}", k, rs.join(", "))).map_err(|e| format!("load: {}", e))?;
+            }
+        }
+        Ok(())
+    }
+    fn create_indexes(&mut self, ixs: &[Ix]) -> Result<(), String> {
+        for (n, x) in ixs.iter().enumerate() {
+            let cols: Vec<String> = x.cols.iter().map(|c| format!("c{}", c)).collect();
+            let sql = format!("CREATE UNIQUE INDEX ix{} ON t{} ({})", n, x.table, cols.join(", "));
+            with_stdout_muted(|| self.run(&sql)).map_err(|e| format!("index: {}", e))?;
+        }
+        self.has_ix = true;
+        Ok(())
+    }
+}
+
+impl Drop for Inst {
+    fn drop(&mut self) {
+        self.sess.take();
+        self.db.take();
+        let _ = std::fs::remove_dir_all(&self.dir);
+    }
+}
+
+/// plan-shape digest of an EXPLAIN text: operator names with their depth, scans with their object ids
+fn digest(explain: &Result<String, String>) -> String {
+    match explain {
+        Err(e) => format!("!{}", err_class(e)),
+        Ok(s) => {
+            let mut out = Vec::new();
+            for line in s.lines() {
+                let indent = line.chars().take_while(|c| *c == ' ').count();
+                let rest = line.trim_start().trim_start_matches(|c: char| !c.is_ascii_alphabetic());
+                if rest.is_empty() {
+                    continue;
+                }
+                let name: String = rest.chars().take_while(|c| c.is_ascii_alphanumeric()).collect();
+                let arg = if name.ends_with("Scan") {
+                    rest[name.len()..].split(')').next().map(|a| format!("{})", a)).unwrap_or_default()
+                } else {
+                    String::new()
+                };
+                out.push(format!("{}{}{}", indent / 2, name, arg));
+            }
+            out.join(",")
+        }
+    }
+}
+
+fn variant_name(v: Variant) -> &'static str {
+    match v {
+        Variant::AsWritten => "a",
+        Variant::NoIndex => "b",
+        Variant::Permuted(_) => "c",
+        Variant::Derived(_) => "f",
+    }
+}
+
+fn case_seed(line: &str) -> u64 {
+    let mut h: u64 = 0xcbf29ce484222325;
+    for b in line.bytes() {
+        h ^= b as u64;
+        h = h.wrapping_mul(0x100000001b3);
+    }
+    h
+}
+
+pub struct Outcome {
+    pub line: String,
+    /// measured: (pairs of forms compared, pairs whose plan digests differ, queries answered by an index scan, …)
+    pub facts: BTreeMap<String, usize>,
+}
+
+/// Runs a case.  `run_queries = false`: only EXPLAIN (used by the generator to measure plan diversity).
+pub fn run_case(line: &str, run_queries: bool) -> Outcome {
+    let mut facts: BTreeMap<String, usize> = BTreeMap::new();
+    let Some((tables, ixs, ops)) = parse_plan_case(line) else {
+        return Outcome { line: "bad-op".into(), facts };
+    };
+    let fail = |what: String| Outcome { line: format!("setup-failed ## {} {:?}", what, take_worker_panic()), facts: BTreeMap::new() };
+    let seed = case_seed(line);
+    let mut early = Inst::new();
+    if let Err(e) = early.create_tables(&tables).and_then(|_| early.create_indexes(&ixs)).and_then(|_| early.load(&tables)) {
+        return fail(format!("early {}", e));
+    }
+    let want_late = !ixs.is_empty() && ops.iter().any(|o| matches!(o, Op::MkIx));
+    let mut late: Option<Inst> = None;
+    if want_late {
+        let mut l = Inst::new();
+        if let Err(e) = l.create_tables(&tables).and_then(|_| l.load(&tables)) {
+            return fail(format!("late {}", e));
+        }
+        late = Some(l);
+    }
+    let mut bump = |k: &str, n: usize| *facts.entry(k.to_string()).or_insert(0) += n;
+    let mut outs: Vec<String> = Vec::new();
+    let mut diags: Vec<String> = Vec::new();
+    let mut panics: Vec<String> = Vec::new();
+    let mut failed = false;
+    // digest of form `a` of every query text seen so far (to see whether ANALYZE changed the plan)
+    let mut seen: BTreeMap<String, String> = BTreeMap::new();
+    let mut analyzed = false;
+    for (opno, op) in ops.iter().enumerate() {
+        if failed {
+            outs.push("-".into());
+            continue;
+        }
+        match op {
+            Op::Begin => {
+                for inst in std::iter::once(&mut early).chain(late.iter_mut()) {
+                    if inst.sess.is_none() {
+                        inst.sess = inst.db().session().ok();
+                    }
+                }
+                outs.push("ok".into());
+            }
+            Op::Rollback | Op::Commit => {
+                let mut res = Vec::new();
+                for inst in std::iter::once(&mut early).chain(late.iter_mut()) {
+                    if let Some(mut s) = inst.sess.take() {
+                        let r = if matches!(op, Op::Commit) { s.commit_transaction() } else { s.abort_transaction() };
+                        res.push(r.is_ok());
+                    }
+                }
+                outs.push(if res.iter().all(|b| *b) { "ok".into() } else { "Eother".into() });
+            }
+            Op::Vacuum => {
+                let mut ok = true;
+                for inst in std::iter::once(&mut early).chain(late.iter_mut()) {
+                    // VACUUM aborts every open transaction: histories only vacuum outside sessions
+                    if inst.sess.is_none() {
+                        ok &= inst.db().vacuum().is_ok();
+                    }
+                }
+                outs.push(if ok { "ok".into() } else { "Eother".into() });
+            }
+            Op::Analyze(permille, max) => {
+                let mut ok = true;
+                for inst in std::iter::once(&mut early).chain(late.iter_mut()) {
+                    ok &= inst.db().analyze(*permille as f64 / 1000.0, *max).is_ok();
+                }
+                analyzed = true;
+                outs.push(if ok { "ok".into() } else { "Eother".into() });
+            }
+            Op::MkIx => {
+                let mut o = "ok".to_string();
+                if let Some(l) = late.as_mut() {
+                    if !l.has_ix {
+                        if let Err(e) = l.create_indexes(&ixs) {
+                            o = format!("E{} ## {}", err_class(&e), e);
+                            failed = true;
+                        }
+                    }
+                }
+                outs.push(o);
+            }
+            Op::Stmt(s @ (Stmt::Insert(..) | Stmt::Update(..) | Stmt::Delete(..))) => {
+                let sql = dml_sql(s);
+                let a = canon_result(early.run(&sql), None);
+                let mut o = a.clone();
+                if let Some(l) = late.as_mut() {
+                    let e = canon_result(l.run(&sql), None);
+                    bump("pairs", 1);
+                    if e != a {
+                        o = format!("PROPFAIL variant=e a={} e={}", a, e);
+                    }
+                }
+                if a.starts_with('E') {
+                    failed = true;
+                }
+                outs.push(o);
+            }
+            Op::Stmt(Stmt::Select(q)) => {
+                let forms = [
+                    Variant::AsWritten,
+                    Variant::NoIndex,
+                    Variant::Permuted(seed ^ opno as u64),
+                    Variant::Derived(seed ^ opno as u64 ^ 0x5bd1e995),
+                ];
+                let mut results: Vec<(String, String)> = Vec::new(); // (form name, canonical result)
+                let mut digs: Vec<(String, String)> = Vec::new();
+                let sql_a = select_sql(q, &tables, &ixs, Variant::AsWritten).unwrap_or_default();
+                for v in forms {
+                    let Some(sql) = select_sql(q, &tables, &ixs, v) else { continue };
+                    if v != Variant::AsWritten && sql == sql_a {
+                        continue;
+                    }
+                    let name = variant_name(v).to_string();
+                    digs.push((name.clone(), digest(&early.db().explain(&sql).map_err(|e| e.to_string()))));
+                    if run_queries {
+                        results.push((name, canon_result(early.run(&sql), Some(q))));
+                    }
+                }
+                if let Some(l) = late.as_mut() {
+                    if l.has_ix {
+                        digs.push(("e".into(), digest(&l.db().explain(&sql_a).map_err(|e| e.to_string()))));
+                        if run_queries {
+                            results.push(("e".into(), canon_result(l.run(&sql_a), Some(q))));
+                        }
+                    }
+                }
+                let da = digs[0].1.clone();
+                for (n, d) in &digs[1..] {
+                    bump("pairs", 1);
+                    bump(&format!("pairs.{}", n), 1);
+                    if *d != da {
+                        bump("differ", 1);
+                        bump(&format!("differ.{}", n), 1);
+                    }
+                }
+                if let Some(prev) = seen.get(&sql_a) {
+                    if analyzed {
+                        bump("pairs", 1);
+                        bump("pairs.d", 1);
+                        if *prev != da {
+                            bump("differ", 1);
+                            bump("differ.d", 1);
+                        }
+                    }
+                }
+                seen.insert(sql_a.clone(), da.clone());
+                for (_, d) in &digs {
+                    if d.contains("IndexScan") {
+                        bump("uses.index-scan", 1);
+                    }
+                    for j in ["HashJoin", "MergeJoin", "NLJoin"] {
+                        if d.contains(j) {
+                            bump(&format!("uses.{}", j), 1);
+                        }
+                    }
+                }
+                diags.push(format!("q{}:{}", opno, digs.iter().map(|(n, d)| format!("{}={}", n, d)).collect::<Vec<_>>().join("|")));
+                if run_queries {
+                    let a = results[0].1.clone();
+                    match results.iter().find(|(_, r)| *r != a) {
+                        None => outs.push(format!("same {}", a)),
+                        Some((n, r)) => outs.push(format!("PROPFAIL variant={} a={} {}={}", n, a, n, r)),
+                    }
+                } else {
+                    outs.push("-".into());
+                }
+            }
+        }
+        if let Some(p) = take_worker_panic() {
+            panics.push(p);
+        }
+    }
+    let pairs = facts.get("pairs").copied().unwrap_or(0);
+    let differ = facts.get("differ").copied().unwrap_or(0);
+    let mut line = format!("{} ## pairs={} differ={} {}", outs.join(" ; "), pairs, differ, diags.join(" "));
+    if !panics.is_empty() {
+        line += &format!(" worker-panic@{}", panics.join(","));
+    }
+    Outcome { line, facts }
+}
+
+/// debugging aid (only with AXH_SQL_DEBUG): `raw <sql>; <sql>…` on a scratch database; besides SQL text the words
+/// EXPLAIN <q>, ANALYZE <rate> <max>, VACUUM, BEGIN, ROLLBACK, COMMIT are understood.
+fn raw(sqls: &str) -> String {
+    let mut t = Inst::new();
+    let mut out = Vec::new();
+    for s in sqls.split(';') {
+        let s = s.trim();
+        if s.is_empty() {
+            continue;
+        }
+        if let Some(q) = s.strip_prefix("EXPLAIN ") {
+            out.push(format!("PLAN {}", digest(&t.db().explain(q).map_err(|e| e.to_string()))));
+            continue;
+        }
+        if let Some(q) = s.strip_prefix("EXPLAINFULL ") {
+            out.push(format!("PLAN {:?}", t.db().explain(q)));
+            continue;
+        }
+        if let Some(a) = s.strip_prefix("ANALYZE") {
+            let ws: Vec<&str> = a.split_whitespace().collect();
+            let r: f64 = ws.first().and_then(|w| w.parse().ok()).unwrap_or(1.0);
+            let m: usize = ws.get(1).and_then(|w| w.parse().ok()).unwrap_or(1000);
+            out.push(format!("ANALYZE {:?}", t.db().analyze(r, m).map_err(|e| e.to_string())));
+            continue;
+        }
+        match s {
+            "VACUUM" => {
+                out.push(format!("VACUUM {:?}", t.db().vacuum().map(|_| ()).map_err(|e| e.to_string())));
+                continue;
+            }
+            "BEGIN" => {
+                t.sess = t.db().session().ok();
+                out.push("BEGIN".into());
+                continue;
+            }
+            "ROLLBACK" | "COMMIT" => {
+                if let Some(mut x) = t.sess.take() {
+                    let r = if s == "COMMIT" { x.commit_transaction() } else { x.abort_transaction() };
+                    out.push(format!("{} {:?}", s, r.map_err(|e| e.to_string())));
+                }
+                continue;
+            }
+            _ => {}
+        }
+        match with_stdout_muted(|| t.run(s)) {
+            Err(e) => out.push(format!("ERR[{}] {}", err_class(&e), e)),
+            Ok(QueryResult::Rows(rows)) => {
+                let rs: Vec<Vec<Val>> = rows.iterrows().map(|r| r.iter().map(canon_val).collect()).collect();
+                out.push(format!("ROWS[{}] {}", rs.len(), show_rows(&rs, false)));
+            }
+            Ok(QueryResult::RowsAffected(n)) => out.push(format!("AFFECTED {}", n)),
+            Ok(QueryResult::Ddl(_)) => out.push("DDL".into()),
+        }
+    }
+    out.join(" || ")
+}
+
+fn show_sql(line: &str) -> String {
+    let Some((tables, ixs, ops)) = parse_plan_case(line) else {
+        return "bad-op".into();
+    };
+    let mut out = Vec::new();
+    for (i, op) in ops.iter().enumerate() {
+        match op {
+            Op::Stmt(Stmt::Select(q)) => {
+                for v in [
+                    Variant::AsWritten,
+                    Variant::NoIndex,
+                    Variant::Permuted(case_seed(line) ^ i as u64),
+                    Variant::Derived(case_seed(line) ^ i as u64 ^ 0x5bd1e995),
+                ] {
+                    if let Some(s) = select_sql(q, &tables, &ixs, v) {
+                        out.push(format!("[{}] {}", variant_name(v), s));
+                    }
+                }
+            }
+            Op::Stmt(s) => out.push(dml_sql(s)),
+            o => out.push(show_op(o)),
+        }
+    }
+    out.join(" ;; ")
+}
+
+// ------------------------------------------------------------------------------------------------ rule-level cases
+//
+//   rule <TABLES> <IX> | <PLAN>
+//   TABLES := TYS ("/" TYS)*      one letter per column, I B O S as in DB; lower case = declared NOT NULL
+//   PLAN   := scan t<k> | filter E PLAN | project p<n> E×n PLAN | join KIND (on E | -) PLAN PLAN
+//   answer := <rule>:<ALTS> (" ; " …)   for the six transformation rules in the order of `transformation_rules()`
+//   ALTS   := "-" | PLAN (" & " PLAN)*   with  ixscan t<k> x<index> lo<n> BOUND×n hi<n> BOUND×n (r E | -),  BOUND := b<pos> (in|ex) <literal>
+
+use axmosdb::verif::plan as vp;
+
+fn to_vexpr(e: &E) -> vp::VExpr {
+    let b = |x: &E| Box::new(to_vexpr(x));
+    match e {
+        E::Lit(Val::Null) => vp::VExpr::Lit(vp::VLit::Null),
+        E::Lit(Val::Int(i)) => vp::VExpr::Lit(vp::VLit::Int(*i as i64)),
+        E::Lit(Val::Bool(x)) => vp::VExpr::Lit(vp::VLit::Bool(*x)),
+        E::Lit(Val::Text(t)) => vp::VExpr::Lit(vp::VLit::Text(t.clone())),
+        E::Lit(Val::F64(_)) => vp::VExpr::Lit(vp::VLit::Null),
+        E::Col(i) => vp::VExpr::Col(*i),
+        E::Not(a) => vp::VExpr::Not(b(a)),
+        E::Neg(a) => vp::VExpr::Neg(b(a)),
+        E::Pos(a) => vp::VExpr::Pos(b(a)),
+        E::And(l, r) => vp::VExpr::And(b(l), b(r)),
+        E::Or(l, r) => vp::VExpr::Or(b(l), b(r)),
+        E::Cmp(op, l, r) => vp::VExpr::Cmp(op, b(l), b(r)),
+        E::Arith(op, l, r) => vp::VExpr::Arith(op, b(l), b(r)),
+        E::Like(n, l, r) => vp::VExpr::Like(*n, b(l), b(r)),
+        E::IsNull(n, a) => vp::VExpr::IsNull(*n, b(a)),
+        E::Between(n, a, lo, hi) => vp::VExpr::Between(*n, b(a), b(lo), b(hi)),
+        E::InList(n, a, xs) => vp::VExpr::InList(*n, b(a), xs.iter().map(to_vexpr).collect()),
+    }
+}
+
+fn show_vlit(v: &vp::VLit) -> String {
+    match v {
+        vp::VLit::Null => "n".into(),
+        vp::VLit::Int(i) => format!("i{}", i),
+        vp::VLit::Bool(b) => if *b { "b1".into() } else { "b0".into() },
+        vp::VLit::Text(t) => format!("t{}", crate::util::hex_or_dash(t)),
+    }
+}
+
+fn show_vexpr(e: &vp::VExpr, out: &mut Vec<String>) {
+    match e {
+        vp::VExpr::Lit(v) => out.push(show_vlit(v)),
+        vp::VExpr::Col(i) => out.push(format!("c{}", i)),
+        vp::VExpr::Not(a) | vp::VExpr::Neg(a) | vp::VExpr::Pos(a) => {
+            out.push(match e {
+                vp::VExpr::Not(_) => "not",
+                vp::VExpr::Neg(_) => "neg",
+                _ => "pos",
+            }
+            .into());
+            show_vexpr(a, out)
+        }
+        vp::VExpr::And(l, r) | vp::VExpr::Or(l, r) => {
+            out.push(if matches!(e, vp::VExpr::And(..)) { "and" } else { "or" }.into());
+            show_vexpr(l, out);
+            show_vexpr(r, out)
+        }
+        vp::VExpr::Cmp(op, l, r) | vp::VExpr::Arith(op, l, r) => {
+            out.push(op.to_string());
+            show_vexpr(l, out);
+            show_vexpr(r, out)
+        }
+        vp::VExpr::Like(n, l, r) => {
+            out.push(if *n { "nlike" } else { "like" }.into());
+            show_vexpr(l, out);
+            show_vexpr(r, out)
+        }
+        vp::VExpr::IsNull(n, a) => {
+            out.push(if *n { "notnull" } else { "isnull" }.into());
+            show_vexpr(a, out)
+        }
+        vp::VExpr::Between(n, a, lo, hi) => {
+            out.push(if *n { "nbtw" } else { "btw" }.into());
+            show_vexpr(a, out);
+            show_vexpr(lo, out);
+            show_vexpr(hi, out)
+        }
+        vp::VExpr::InList(n, a, xs) => {
+            out.push(format!("{}{}", if *n { "nin" } else { "in" }, xs.len()));
+            show_vexpr(a, out);
+            for x in xs {
+                show_vexpr(x, out)
+            }
+        }
+        vp::VExpr::Other(s) => out.push(format!("?{}", s.replace(' ', "_"))),
+    }
+}
+
+fn show_vplan(p: &vp::VPlan, out: &mut Vec<String>) {
+    match p {
+        vp::VPlan::Scan(t) => {
+            out.push("scan".into());
+            out.push(format!("t{}", t))
+        }
+        vp::VPlan::IndexScan { table, index, lo, hi, resid } => {
+            out.push("ixscan".into());
+            out.push(format!("t{}", table));
+            out.push(format!("x{}", index));
+            for (name, bs) in [("lo", lo), ("hi", hi)] {
+                out.push(format!("{}{}", name, bs.len()));
+                for b in bs {
+                    out.push(format!("b{}", b.pos));
+                    out.push(if b.inclusive { "in" } else { "ex" }.into());
+                    out.push(show_vlit(&b.value));
+                }
+            }
+            match resid {
+                Some(e) => {
+                    out.push("r".into());
+                    show_vexpr(e, out)
+                }
+                None => out.push("-".into()),
+            }
+        }
+        vp::VPlan::Filter(e, c) => {
+            out.push("filter".into());
+            show_vexpr(e, out);
+            show_vplan(c, out)
+        }
+        vp::VPlan::Project(items, c) => {
+            out.push("project".into());
+            out.push(format!("p{}", items.len()));
+            for e in items {
+                show_vexpr(e, out)
+            }
+            show_vplan(c, out)
+        }
+        vp::VPlan::Join(k, on, l, r) => {
+            out.push("join".into());
+            out.push(k.to_string());
+            match on {
+                Some(e) => {
+                    out.push("on".into());
+                    show_vexpr(e, out)
+                }
+                None => out.push("-".into()),
+            }
+            show_vplan(l, out);
+            show_vplan(r, out)
+        }
+        vp::VPlan::Other(s) => out.push(format!("?{}", s.replace(' ', "_"))),
+    }
+}
+
+/// one expression of the case syntax, through the parser of engine `sql` (a WHERE clause of a throw-away statement)
+fn parse_expr_words(ws: &[&str], pos: &mut usize, ncols_hint: &str) -> Option<E> {
+    // find the shortest prefix that parses as an expression
+    for end in (*pos + 1)..=ws.len() {
+        let l = format!("sql {}= ; del t0 w {}", ncols_hint, ws[*pos..end].join(" "));
+        if let Some((_, mut stmts)) = parse_case(&l) {
+            if let Some(Stmt::Delete(_, Some(e))) = stmts.pop() {
+                *pos = end;
+                return Some(e);
+            }
+        }
+    }
+    None
+}
+
+fn parse_vplan(ws: &[&str], pos: &mut usize) -> Option<vp::VPlan> {
+    let w = *ws.get(*pos)?;
+    *pos += 1;
+    match w {
+        "scan" => {
+            let t = ws.get(*pos)?.strip_prefix('t')?.parse().ok()?;
+            *pos += 1;
+            Some(vp::VPlan::Scan(t))
+        }
+        "filter" => {
+            let e = parse_expr_words(ws, pos, "I")?;
+            let c = parse_vplan(ws, pos)?;
+            Some(vp::VPlan::Filter(to_vexpr(&e), Box::new(c)))
+        }
+        "project" => {
+            let n: usize = ws.get(*pos)?.strip_prefix('p')?.parse().ok()?;
+            *pos += 1;
+            let mut items = Vec::new();
+            for _ in 0..n {
+                items.push(to_vexpr(&parse_expr_words(ws, pos, "I")?));
+            }
+            let c = parse_vplan(ws, pos)?;
+            Some(vp::VPlan::Project(items, Box::new(c)))
+        }
+        "join" => {
+            let k = *["inner", "left", "right", "full", "cross"].iter().find(|k| **k == *ws.get(*pos).unwrap_or(&""))?;
+            *pos += 1;
+            let on = match *ws.get(*pos)? {
+                "-" => {
+                    *pos += 1;
+                    None
+                }
+                "on" => {
+                    *pos += 1;
+                    Some(to_vexpr(&parse_expr_words(ws, pos, "I")?))
+                }
+                _ => return None,
+            };
+            let l = parse_vplan(ws, pos)?;
+            let r = parse_vplan(ws, pos)?;
+            Some(vp::VPlan::Join(k, on, Box::new(l), Box::new(r)))
+        }
+        _ => None,
+    }
+}
+
+fn parse_vtables(w: &str, ixs: &[Ix]) -> Option<Vec<vp::VTable>> {
+    let mut out = Vec::new();
+    for (t, tw) in w.split('/').enumerate() {
+        if tw.is_empty() {
+            return None;
+        }
+        let mut cols = Vec::new();
+        for ch in tw.chars() {
+            let ty = match ch.to_ascii_uppercase() {
+                'I' => vp::VTy::Int,
+                'B' => vp::VTy::BigInt,
+                'O' => vp::VTy::Bool,
+                'S' => vp::VTy::Text,
+                _ => return None,
+            };
+            cols.push((ty, ch.is_ascii_lowercase()));
+        }
+        let indexes: Vec<Vec<usize>> = ixs.iter().filter(|x| x.table == t).map(|x| x.cols.clone()).collect();
+        if indexes.iter().any(|ix| ix.iter().any(|c| *c >= cols.len())) || indexes.len() > 15 {
+            return None;
+        }
+        out.push(vp::VTable { cols, indexes });
+    }
+    Some(out)
+}
+
+fn run_rule_case(line: &str) -> String {
+    let ws: Vec<&str> = line.split_whitespace().collect();
+    if ws.len() < 5 || ws[0] != "rule" || ws[3] != "|" {
+        return "bad-op".into();
+    }
+    let Some(ixs) = parse_ixs(ws[2]) else { return "bad-op".into() };
+    let ntables = ws[1].split('/').count();
+    if ixs.iter().any(|x| x.table >= ntables) {
+        return "bad-op".into();
+    }
+    let Some(tables) = parse_vtables(ws[1], &ixs) else { return "bad-op".into() };
+    let mut pos = 4;
+    let Some(plan) = parse_vplan(&ws, &mut pos) else { return "bad-op".into() };
+    if pos != ws.len() {
+        return "bad-op".into();
+    }
+    match vp::apply_rules(&tables, &plan) {
+        Err(e) => format!("rule-error ## {}", e),
+        Ok(rs) => rs
+            .iter()
+            .map(|(name, alts)| {
+                let a = if alts.is_empty() {
+                    "-".to_string()
+                } else {
+                    alts.iter()
+                        .map(|p| {
+                            let mut out = Vec::new();
+                            show_vplan(p, &mut out);
+                            out.join(" ")
+                        })
+                        .collect::<Vec<_>>()
+                        .join(" & ")
+                };
+                format!("{}:{}", name, a)
+            })
+            .collect::<Vec<_>>()
+            .join(" ; "),
+    }
+}
+
+// generator of rule-level cases
+
+struct RG<'a> {
+    rng: &'a mut Rng,
+    tables: Vec<Vec<(Ty, bool)>>,
+}
+
+impl<'a> RG<'a> {
+    fn lit(&mut self, ty: Ty) -> E {
+        if self.rng.chance(1, 12) {
+            return E::Lit(Val::Null);
+        }
+        match ty {
+            Ty::Int | Ty::BigInt => {
+                if self.rng.chance(1, 10) {
+                    lit_i(*self.rng.pick(&[3_000_000_000i128, -2147483649, 2147483647]))
+                } else {
+                    lit_i(self.rng.range(-3, 12) as i128)
+                }
+            }
+            Ty::Bool => E::Lit(Val::Bool(self.rng.chance(1, 2))),
+            Ty::Text => E::Lit(Val::Text(self.rng.pick(&TEXTS).as_bytes().to_vec())),
+        }
+    }
+
+    fn atom(&mut self, cols: &[(usize, Ty)]) -> E {
+        let (c, ty) = *self.rng.pick(cols);
+        let col = E::Col(c);
+        let same: Vec<usize> = cols.iter().filter(|x| x.1 == ty || (is_int(x.1) && is_int(ty))).map(|x| x.0).collect();
+        match self.rng.below(14) {
+            0..=3 => {
+                let l = self.lit(ty);
+                cmp(*self.rng.pick(&["eq", "ne", "lt", "le", "gt", "ge"]), col, l)
+            }
+            4 | 5 => {
+                let l = self.lit(ty);
+                cmp(*self.rng.pick(&["eq", "lt", "le", "gt", "ge"]), l, col)
+            }
+            6 | 7 => cmp(*self.rng.pick(&["eq", "eq", "lt", "ne"]), col, E::Col(*self.rng.pick(&same))),
+            8 => E::IsNull(self.rng.chance(1, 2), b(col)),
+            9 => {
+                let (lo, hi) = (self.lit(ty), self.lit(ty));
+                E::Between(self.rng.chance(1, 3), b(col), b(lo), b(hi))
+            }
+            10 => {
+                let xs = vec![self.lit(ty), E::Col(*self.rng.pick(&same))];
+                E::InList(self.rng.chance(1, 3), b(col), xs)
+            }
+            11 if is_int(ty) => {
+                let l = self.lit(ty);
+                cmp("eq", E::Arith(*self.rng.pick(&["add", "sub", "mul"]), b(col), b(E::Col(*self.rng.pick(&same)))), l)
+            }
+            12 if is_int(ty) => {
+                let l = self.lit(ty);
+                cmp("gt", E::Neg(b(col)), l)
+            }
+            13 if ty == Ty::Text => E::Like(self.rng.chance(1, 3), b(col), b(E::Lit(Val::Text(b"a%".to_vec())))),
+            _ => {
+                let l = self.lit(ty);
+                cmp("eq", col, l)
+            }
+        }
+    }
+
+    fn pred(&mut self, cols: &[(usize, Ty)], depth: u32) -> E {
+        if depth == 0 || cols.is_empty() {
+            if cols.is_empty() {
+                return cmp("eq", lit_i(1), lit_i(1));
+            }
+            return self.atom(cols);
+        }
+        match self.rng.below(10) {
+            0..=5 => and(self.pred(cols, depth - 1), self.pred(cols, depth - 1)),
+            6 => E::Or(b(self.pred(cols, depth - 1)), b(self.pred(cols, depth - 1))),
+            7 => E::Not(b(self.pred(cols, depth - 1))),
+            _ => self.atom(cols),
+        }
+    }
+
+    /// a plan with its output column types
+    fn plan(&mut self, depth: u32) -> (vp::VPlan, Vec<Ty>) {
+        let leaf = depth == 0 || self.rng.chance(1, 4);
+        if leaf {
+            let t = self.rng.below(self.tables.len() as u64) as usize;
+            return (vp::VPlan::Scan(t), self.tables[t].iter().map(|c| c.0).collect());
+        }
+        match self.rng.below(10) {
+            0..=3 => {
+                let (c, tys) = self.plan(depth - 1);
+                let cols: Vec<(usize, Ty)> = tys.iter().copied().enumerate().collect();
+                let d = self.rng.below(3) as u32;
+                let e = self.pred(&cols, d);
+                (vp::VPlan::Filter(to_vexpr(&e), Box::new(c)), tys)
+            }
+            4 | 5 => {
+                let (c, tys) = self.plan(depth - 1);
+                let n = self.rng.range(1, 4) as usize;
+                let mut items = Vec::new();
+                let mut out = Vec::new();
+                let plain = self.rng.chance(3, 4);
+                for _ in 0..n {
+                    let i = self.rng.below(tys.len() as u64) as usize;
+                    if !plain && is_int(tys[i]) && self.rng.chance(1, 2) {
+                        items.push(E::Arith("add", b(E::Col(i)), b(lit_i(1))));
+                        out.push(Ty::BigInt);
+                    } else {
+                        items.push(E::Col(i));
+                        out.push(tys[i]);
+                    }
+                }
+                (vp::VPlan::Project(items.iter().map(to_vexpr).collect(), Box::new(c)), out)
+            }
+            _ => {
+                let (l, lt) = self.plan(depth - 1);
+                let (r, rt) = self.plan(depth.saturating_sub(2));
+                let mut tys = lt.clone();
+                tys.extend(rt.iter().copied());
+                let kind = *self.rng.pick(&["inner", "inner", "inner", "cross", "left", "right", "full"]);
+                let on = if kind == "cross" && self.rng.chance(2, 3) {
+                    None
+                } else {
+                    let cols: Vec<(usize, Ty)> = tys.iter().copied().enumerate().collect();
+                    let d = self.rng.below(3) as u32;
+                    Some(to_vexpr(&self.pred(&cols, d)))
+                };
+                (vp::VPlan::Join(kind, on, Box::new(l), Box::new(r)), tys)
+            }
+        }
+    }
+}
+
+fn gen_rule_case(rng: &mut Rng) -> Case {
+    loop {
+        let c = gen_rule_case_once(rng);
+        if let Some(c) = c {
+            return c;
+        }
+    }
+}
+
+fn gen_rule_case_once(rng: &mut Rng) -> Option<Case> {
+    let nt = rng.range(1, 3) as usize;
+    let mut tables: Vec<Vec<(Ty, bool)>> = Vec::new();
+    let mut ixs: Vec<Ix> = Vec::new();
+    for t in 0..nt {
+        let n = rng.range(1, 4) as usize;
+        let cols: Vec<(Ty, bool)> =
+            (0..n).map(|_| (*rng.pick(&[Ty::Int, Ty::Int, Ty::BigInt, Ty::Text, Ty::Bool]), rng.chance(1, 3))).collect();
+        for _ in 0..rng.below(3) {
+            let mut cs: Vec<usize> = (0..n).collect();
+            rng.shuffle(&mut cs);
+            cs.truncate(rng.range(1, 2.min(n as i64)) as usize);
+            ixs.push(Ix { table: t, cols: cs });
+        }
+        tables.push(cols);
+    }
+    let mut g = RG { rng, tables: tables.clone() };
+    // shapes the rules look for at the root, on top of random sub-plans
+    let (plan, _) = match g.rng.below(8) {
+        0 | 1 => {
+            // a filter over a table scan (index scan rule): mostly conjunctions of comparisons with literals
+            let t = g.rng.below(nt as u64) as usize;
+            let cols: Vec<(usize, Ty)> = tables[t].iter().map(|c| c.0).enumerate().collect();
+            let d = g.rng.range(0, 2) as u32;
+            let e = g.pred(&cols, d);
+            (vp::VPlan::Filter(to_vexpr(&e), Box::new(vp::VPlan::Scan(t))), vec![])
+        }
+        _ => {
+            let d = g.rng.range(1, 3) as u32;
+            g.plan(d)
+        }
+    };
+    // A join of a plan with itself is left out: whether the memo takes the two inputs for one group depends on the
+    // iteration order of a HashMap (Schema's Debug output is part of the memo hash), and with it whether the commuted
+    // join counts as new — either outcome is sound, but the outcome is not a function of the case.
+    if let vp::VPlan::Join(_, _, l, r) = &plan {
+        if l == r {
+            return None;
+        }
+    }
+    let tw: Vec<String> = tables
+        .iter()
+        .map(|cols| {
+            cols.iter()
+                .map(|(ty, nn)| {
+                    let ch = match ty {
+                        Ty::Int => 'I',
+                        Ty::BigInt => 'B',
+                        Ty::Bool => 'O',
+                        Ty::Text => 'S',
+                    };
+                    if *nn { ch.to_ascii_lowercase() } else { ch }
+                })
+                .collect()
+        })
+        .collect();
+    let mut words = Vec::new();
+    show_vplan(&plan, &mut words);
+    let line = format!("rule {} {} | {}", tw.join("/"), show_ixs(&ixs), words.join(" "));
+    // which rules really fire on it (the facade is pure: no database, no threads)
+    let vt: Vec<vp::VTable> = tables
+        .iter()
+        .enumerate()
+        .map(|(t, cols)| vp::VTable {
+            cols: cols
+                .iter()
+                .map(|(ty, nn)| {
+                    (
+                        match ty {
+                            Ty::Int => vp::VTy::Int,
+                            Ty::BigInt => vp::VTy::BigInt,
+                            Ty::Bool => vp::VTy::Bool,
+                            Ty::Text => vp::VTy::Text,
+                        },
+                        *nn,
+                    )
+                })
+                .collect(),
+            indexes: ixs.iter().filter(|x| x.table == t).map(|x| x.cols.clone()).collect(),
+        })
+        .collect();
+    let mut tags = vec!["rule".to_string()];
+    if let Ok(rs) = vp::apply_rules(&vt, &plan) {
+        let mut any = false;
+        for (name, alts) in rs {
+            if !alts.is_empty() {
+                any = true;
+                tags.push(format!("rule.fires.{}", name));
+            }
+        }
+        if !any {
+            tags.push("rule.fires.none".into());
+        }
+    }
+    tags.push("nt".into());
+    Some(Case { line, tags })
+}
+
+// ------------------------------------------------------------------------------------------------ generation
+
+const TEXTS: [&str; 14] = ["a", "ab", "abc", "b", "ba", "bb", "c", "ca", "d", "x", "xy", "y", "zz", "m"];
+
+#[derive(Clone, Copy, PartialEq, Debug)]
+enum Size {
+    Tiny,
+    Small,
+    Medium,
+    Big,
+}
+
+struct G<'a> {
+    rng: &'a mut Rng,
+    tags: BTreeSet<String>,
+    db: Vec<Table>,
+    ixs: Vec<Ix>,
+    /// columns whose values are distinct and non-NULL (column 0 and every indexed column)
+    uniq: Vec<BTreeSet<usize>>,
+    /// current contents (simulated)
+    cur: Vec<Vec<Vec<Val>>>,
+    /// next fresh value of every unique integer column
+    fresh: Vec<Vec<i128>>,
+    /// unique keys (whole rows) deleted so far, for re-insertion
+    deleted: Vec<Vec<Vec<Val>>>,
+    /// the one known-finding region this case may enter (cfg/C06.py); `None` for at least 70 % of the cases
+    region: Region,
+    /// rows ever inserted into each table (every inserted row adds a version to the table's catalog row)
+    inserted: Vec<usize>,
+    /// ANALYZE may be used (at most three relations, or the region `CatalogGrowth`)
+    allow_analyze: bool,
+}
+
+#[derive(Clone, Copy, PartialEq, Debug)]
+enum Region {
+    None,
+    /// UPDATE of a column that belongs to a unique index (the index keeps the old key: pinned by a test)
+    UpdateIndexed,
+    /// DELETE + INSERT of the same unique key inside a session that is rolled back (the index entry is replaced)
+    ReinsertInRollback,
+    /// more than three relations whose catalog rows grow (many inserted rows, ANALYZE): the catalog B-tree gets a
+    /// second leaf and its dividers share overflow chains with the leaf cells ("Expected overflow frame")
+    CatalogGrowth,
+    /// a unique index over an INT and a BIGINT column: the uniqueness probe panics (key alignment)
+    MixedKey,
+}
+
+fn b(e: E) -> Box<E> {
+    Box::new(e)
+}
+fn lit_i(i: i128) -> E {
+    E::Lit(Val::Int(i))
+}
+fn cmp(op: &'static str, a: E, c: E) -> E {
+    E::Cmp(op, b(a), b(c))
+}
+fn and(a: E, c: E) -> E {
+    E::And(b(a), b(c))
+}
+
+/// three-valued evaluation of the restricted predicates the history uses (for the generator's simulation only)
+fn sim_val(e: &E, row: &[Val]) -> Val {
+    match e {
+        E::Lit(v) => v.clone(),
+        E::Col(i) => row.get(*i).cloned().unwrap_or(Val::Null),
+        E::Arith(op, a, c) => match (sim_val(a, row), sim_val(c, row)) {
+            (Val::Int(x), Val::Int(y)) => match *op {
+                "add" => Val::Int(x + y),
+                "sub" => Val::Int(x - y),
+                _ => Val::Null,
+            },
+            _ => Val::Null,
+        },
+        E::Cmp(op, a, c) => {
+            let (x, y) = (sim_val(a, row), sim_val(c, row));
+            let o = match (&x, &y) {
+                (Val::Int(p), Val::Int(q)) => p.cmp(q),
+                (Val::Text(p), Val::Text(q)) => p.cmp(q),
+                (Val::Bool(p), Val::Bool(q)) => p.cmp(q),
+                _ => return Val::Null,
+            };
+            use std::cmp::Ordering::*;
+            Val::Bool(match *op {
+                "eq" => o == Equal,
+                "ne" => o != Equal,
+                "lt" => o == Less,
+                "le" => o != Greater,
+                "gt" => o == Greater,
+                _ => o != Less,
+            })
+        }
+        E::And(a, c) => match (sim_val(a, row), sim_val(c, row)) {
+            (Val::Bool(false), _) | (_, Val::Bool(false)) => Val::Bool(false),
+            (Val::Bool(true), Val::Bool(true)) => Val::Bool(true),
+            _ => Val::Null,
+        },
+        E::IsNull(neg, a) => Val::Bool((sim_val(a, row) == Val::Null) != *neg),
+        _ => Val::Null,
+    }
+}
+
+fn sim_true(w: &Option<E>, row: &[Val]) -> bool {
+    match w {
+        None => true,
+        Some(e) => sim_val(e, row) == Val::Bool(true),
+    }
+}
+
+impl<'a> G<'a> {
+    fn tag(&mut self, t: &str) {
+        self.tags.insert(t.to_string());
+    }
+
+    fn plain_val(&mut self, ty: Ty, nullable: bool) -> Val {
+        if nullable && self.rng.chance(1, 5) {
+            return Val::Null;
+        }
+        match ty {
+            Ty::Int | Ty::BigInt => {
+                if self.rng.chance(1, 10) {
+                    Val::Int(self.rng.range(-1000, 1000) as i128)
+                } else {
+                    Val::Int(self.rng.range(-3, 12) as i128)
+                }
+            }
+            Ty::Bool => Val::Bool(self.rng.chance(1, 2)),
+            Ty::Text => Val::Text(self.rng.pick(&TEXTS).as_bytes().to_vec()),
+        }
+    }
+
+    fn make_db(&mut self) {
+        // The catalog keeps one row per relation (table or index) and the row of a table grows with every inserted row
+        // and every ANALYZE.  As long as there are at most three relations the catalog tree is a single leaf whatever
+        // the rows' sizes; with more relations it stays one while the database is small.  Beyond that lies a listed
+        // finding (catalog B-tree, not C06's mechanism), entered only by the cases of region `CatalogGrowth`.
+        let few_relations = self.region != Region::CatalogGrowth && self.rng.chance(1, 2);
+        let ntables = if few_relations { *self.rng.pick(&[1usize, 1, 2, 2, 2]) } else { *self.rng.pick(&[1usize, 2, 2, 2, 3, 3]) };
+        let mut index_budget = if few_relations { 3 - ntables } else { usize::MAX };
+        // ANALYZE adds a statistics blob to every catalog row: two relations of any size, or three small ones
+        let mut small_only = false;
+        if few_relations && ntables == 2 && self.rng.chance(1, 2) {
+            small_only = true;
+        }
+        if few_relations && !small_only && index_budget + ntables > 2 {
+            index_budget = 2 - ntables.min(2);
+        }
+        self.allow_analyze = few_relations || self.region == Region::CatalogGrowth;
+        self.tag(if self.region == Region::CatalogGrowth {
+            "reg.catalog-growth"
+        } else if few_relations {
+            "shape.few-relations"
+        } else {
+            "shape.small-db"
+        });
+        let profile = if (few_relations && !small_only) || self.region == Region::CatalogGrowth { self.rng.below(10) } else { self.rng.below(5) };
+        for k in 0..ntables {
+            let ncols = self.rng.range(2, 4) as usize;
+            let mut tys = vec![Ty::Int];
+            for _ in 1..ncols {
+                tys.push(*self.rng.pick(&[Ty::Int, Ty::Int, Ty::Int, Ty::BigInt, Ty::Text, Ty::Bool]));
+            }
+            // index
+            let mut uniq: BTreeSet<usize> = BTreeSet::new();
+            uniq.insert(0);
+            if self.region == Region::MixedKey && k == 0 {
+                tys[1] = Ty::BigInt;
+                uniq.insert(1);
+                self.ixs.push(Ix { table: 0, cols: vec![0, 1] });
+                self.tag("reg.mixed-composite-key");
+                index_budget = index_budget.saturating_sub(1);
+            } else if index_budget > 0 && self.rng.chance(4, 5) {
+                index_budget -= 1;
+                let ints: Vec<usize> = (0..ncols).filter(|c| is_int(tys[*c])).collect();
+                let texts: Vec<usize> = (0..ncols).filter(|c| tys[*c] == Ty::Text).collect();
+                let kind = self.rng.below(20);
+                // composite keys only over columns of one type (a key of INT and BIGINT columns panics in the tuple
+                // builder: alignment padding inside the key is not counted, types/core.rs:333 — C18's area)
+                let same: Vec<usize> = {
+                    let i32s: Vec<usize> = ints.iter().copied().filter(|c| tys[*c] == Ty::Int).collect();
+                    let i64s: Vec<usize> = ints.iter().copied().filter(|c| tys[*c] == Ty::BigInt).collect();
+                    if i64s.len() >= 2 { i64s } else { i32s }
+                };
+                let cols: Vec<usize> = if kind < 3 && same.len() >= 2 {
+                    self.tag("ix.two-col");
+                    let mut cs = same.clone();
+                    self.rng.shuffle(&mut cs);
+                    cs.truncate(2);
+                    cs
+                } else if kind < 5 && !texts.is_empty() {
+                    self.tag("ix.text");
+                    vec![*self.rng.pick(&texts)]
+                } else if kind < 10 {
+                    self.tag("ix.on-c0");
+                    vec![0]
+                } else {
+                    self.tag("ix.single");
+                    vec![*self.rng.pick(&ints)]
+                };
+                // every column of a unique index is itself kept unique and non-NULL (a stronger invariant than the
+                // index needs: NULL keys and duplicate parts are out of reach, see cfg/C06.py)
+                for c in &cols {
+                    uniq.insert(*c);
+                }
+                self.ixs.push(Ix { table: k, cols });
+            } else {
+                self.tag("ix.none");
+            }
+            let size = match (profile, k) {
+                (0, _) => Size::Tiny,
+                (1..=4, _) => Size::Small,
+                (5 | 6, 0) => Size::Tiny,
+                (5 | 6, _) => Size::Medium,
+                (7, 0) => Size::Medium,
+                (7, _) => Size::Tiny,
+                (8, 0) => Size::Big,
+                (8, _) => Size::Small,
+                (_, 0) => Size::Small,
+                (_, _) => Size::Big,
+            };
+            let nrows = match size {
+                Size::Tiny => self.rng.range(0, 3),
+                Size::Small => self.rng.range(3, 9),
+                Size::Medium => self.rng.range(25, 60),
+                Size::Big => self.rng.range(150, 320),
+            } as usize;
+            self.tag(&format!("size.{:?}", size).to_lowercase());
+            // distinct values for the unique columns
+            let mut pools: BTreeMap<usize, Vec<Val>> = BTreeMap::new();
+            let mut fresh = vec![0i128; ncols];
+            for &c in &uniq {
+                match tys[c] {
+                    Ty::Text => {
+                        // distinct words: base words, then numbered ones
+                        let mut ws: Vec<Val> = (0..nrows + 40)
+                            .map(|i| {
+                                if i < TEXTS.len() { Val::Text(TEXTS[i].as_bytes().to_vec()) } else { Val::Text(format!("w{:04}", i).into_bytes()) }
+                            })
+                            .collect();
+                        fresh[c] = (nrows + 40) as i128;
+                        let keep = ws.split_off(nrows.min(ws.len()));
+                        drop(keep);
+                        self.rng.shuffle(&mut ws);
+                        pools.insert(c, ws);
+                    }
+                    _ => {
+                        let step = if c == 0 { 1 } else { self.rng.range(1, 3) as i128 };
+                        let base = if c == 0 { 1 } else { self.rng.range(-5, 10) as i128 };
+                        let mut vs: Vec<Val> = (0..nrows as i128).map(|i| Val::Int(base + i * step)).collect();
+                        fresh[c] = base + nrows as i128 * step + 1;
+                        if c != 0 || self.rng.chance(1, 2) {
+                            self.rng.shuffle(&mut vs);
+                        }
+                        pools.insert(c, vs);
+                    }
+                }
+            }
+            // NULLs in indexed columns other than c0 (such rows have no index entry; NULL never collides), in some tables
+            let null_keys = self.region != Region::MixedKey && self.rng.chance(1, 3);
+            if null_keys && uniq.len() > 1 {
+                self.tag("ix.null-keys");
+            }
+            let mut rows = Vec::new();
+            for i in 0..nrows {
+                let row: Vec<Val> = (0..ncols)
+                    .map(|c| {
+                        if uniq.contains(&c) {
+                            if c != 0 && null_keys && self.rng.chance(1, 5) { Val::Null } else { pools[&c][i].clone() }
+                        } else {
+                            self.plain_val(tys[c], true)
+                        }
+                    })
+                    .collect();
+                rows.push(row);
+            }
+            self.cur.push(rows.clone());
+            self.inserted.push(rows.len());
+            self.db.push(Table { tys, rows });
+            self.uniq.push(uniq);
+            self.fresh.push(fresh);
+            self.deleted.push(Vec::new());
+        }
+    }
+
+    fn fresh_val(&mut self, t: usize, c: usize) -> Val {
+        let v = self.fresh[t][c];
+        self.fresh[t][c] += 1 + self.rng.below(3) as i128;
+        match self.db[t].tys[c] {
+            Ty::Text => Val::Text(format!("w{:04}", v).into_bytes()),
+            _ => Val::Int(v),
+        }
+    }
+
+    fn new_row(&mut self, t: usize) -> Vec<Val> {
+        let tys = self.db[t].tys.clone();
+        (0..tys.len())
+            .map(|c| {
+                if self.uniq[t].contains(&c) {
+                    if c != 0 && self.region != Region::MixedKey && self.rng.chance(1, 10) { Val::Null } else { self.fresh_val(t, c) }
+                } else {
+                    self.plain_val(tys[c], true)
+                }
+            })
+            .collect()
+    }
+
+    /// an existing value of column c of table t (or a made-up one)
+    fn some_val(&mut self, t: usize, c: usize) -> Val {
+        let n = self.cur[t].len();
+        if n > 0 && self.rng.chance(4, 5) {
+            let v = self.cur[t][self.rng.below(n as u64) as usize][c].clone();
+            if v != Val::Null {
+                return v;
+            }
+        }
+        let ty = self.db[t].tys[c];
+        self.plain_val(ty, false)
+    }
+
+    /// a simple predicate the simulation understands, over table t
+    fn hist_pred(&mut self, t: usize) -> Option<E> {
+        let tys = self.db[t].tys.clone();
+        let ix_cols: Vec<usize> = self.ixs.iter().filter(|x| x.table == t).flat_map(|x| x.cols.clone()).filter(|c| is_int(tys[*c])).collect();
+        let ints: Vec<usize> = (0..tys.len()).filter(|c| is_int(tys[*c])).collect();
+        match self.rng.below(10) {
+            0 => None,
+            1..=3 => {
+                // one row by id
+                let v = self.some_val(t, 0);
+                Some(cmp("eq", E::Col(0), E::Lit(v)))
+            }
+            4..=7 if !ix_cols.is_empty() => {
+                // through the index: point or range on an indexed column
+                self.tag("hist.where-indexed");
+                let c = *self.rng.pick(&ix_cols);
+                let v = self.some_val(t, c);
+                match self.rng.below(4) {
+                    0 => Some(cmp("eq", E::Col(c), E::Lit(v))),
+                    1 => Some(cmp(*self.rng.pick(&["lt", "le", "gt", "ge"]), E::Col(c), E::Lit(v))),
+                    2 => Some(cmp(*self.rng.pick(&["lt", "le", "gt", "ge"]), E::Lit(v), E::Col(c))),
+                    _ => {
+                        let w = match &v {
+                            Val::Int(i) => Val::Int(*i + self.rng.range(0, 6) as i128),
+                            o => o.clone(),
+                        };
+                        Some(and(cmp("ge", E::Col(c), E::Lit(v)), cmp(*self.rng.pick(&["lt", "le"]), E::Col(c), E::Lit(w))))
+                    }
+                }
+            }
+            _ => {
+                let c = *self.rng.pick(&ints);
+                let v = self.some_val(t, c);
+                let p = cmp(*self.rng.pick(&["eq", "ne", "lt", "ge"]), E::Col(c), E::Lit(v));
+                if self.rng.chance(1, 4) { Some(and(p, E::IsNull(true, b(E::Col(c))))) } else { Some(p) }
+            }
+        }
+    }
+
+    fn sim_insert(&mut self, t: usize, rows: &[Vec<Val>]) {
+        self.inserted[t] += rows.len();
+        self.cur[t].extend(rows.iter().cloned());
+    }
+
+    fn sim_delete(&mut self, t: usize, w: &Option<E>) {
+        let (gone, kept): (Vec<_>, Vec<_>) = self.cur[t].drain(..).partition(|r| sim_true(w, r));
+        self.cur[t] = kept;
+        self.deleted[t].extend(gone);
+    }
+
+    fn sim_update(&mut self, t: usize, sets: &[(usize, E)], w: &Option<E>) {
+        for r in self.cur[t].iter_mut() {
+            if sim_true(w, r) {
+                let old = r.clone();
+                for (c, e) in sets {
+                    r[*c] = sim_val(e, &old);
+                }
+            }
+        }
+    }
+
+    fn insert_stmt(&mut self, t: usize) -> Stmt {
+        let n = self.rng.range(1, 3) as usize;
+        let rows: Vec<Vec<Val>> = (0..n).map(|_| self.new_row(t)).collect();
+        self.sim_insert(t, &rows);
+        self.tag("hist.insert");
+        Stmt::Insert(t, rows.iter().map(|r| r.iter().map(|v| E::Lit(v.clone())).collect()).collect())
+    }
+
+    /// re-insert a row whose unique keys were deleted earlier (the index entries of the dead row are replaced)
+    fn reinsert_stmt(&mut self, t: usize) -> Option<Stmt> {
+        let row = self.deleted[t].pop()?;
+        // its keys must still be free
+        for &c in &self.uniq[t] {
+            if self.cur[t].iter().any(|r| r[c] == row[c]) {
+                return None;
+            }
+        }
+        self.sim_insert(t, &[row.clone()]);
+        self.tag("hist.reinsert-deleted-key");
+        Some(Stmt::Insert(t, vec![row.iter().map(|v| E::Lit(v.clone())).collect()]))
+    }
+
+    fn delete_stmt(&mut self, t: usize) -> Stmt {
+        let w = self.hist_pred(t);
+        self.sim_delete(t, &w);
+        self.tag("hist.delete");
+        Stmt::Delete(t, w)
+    }
+
+    fn update_stmt(&mut self, t: usize, allow_key: bool) -> Stmt {
+        let tys = self.db[t].tys.clone();
+        let keyed: Vec<usize> = self.uniq[t].iter().copied().filter(|c| is_int(tys[*c])).collect();
+        let indexed: Vec<usize> = self.ixs.iter().filter(|x| x.table == t).flat_map(|x| x.cols.clone()).filter(|c| is_int(tys[*c])).collect();
+        let plain: Vec<usize> = (0..tys.len()).filter(|c| !self.uniq[t].contains(c)).collect();
+        // outside the region only unique columns without an index get new keys
+        let (keyed, indexed) = if self.region == Region::UpdateIndexed {
+            (keyed, indexed)
+        } else {
+            (keyed.into_iter().filter(|c| !indexed.contains(c)).collect::<Vec<_>>(), Vec::new())
+        };
+        if allow_key && !keyed.is_empty() && (plain.is_empty() || self.rng.chance(1, 2)) {
+            // a unique (mostly: indexed) column gets new values
+            let c = if !indexed.is_empty() && self.rng.chance(3, 4) { *self.rng.pick(&indexed) } else { *self.rng.pick(&keyed) };
+            if indexed.contains(&c) {
+                self.tag("reg.update-indexed");
+            } else {
+                self.tag("hist.update-unique");
+            }
+            if self.rng.chance(1, 2) || self.cur[t].is_empty() {
+                // one row, to a fresh key
+                let id = self.some_val(t, 0);
+                let v = self.fresh_val(t, c);
+                let w = Some(cmp("eq", E::Col(0), E::Lit(id)));
+                let sets = vec![(c, E::Lit(v))];
+                self.sim_update(t, &sets, &w);
+                return Stmt::Update(t, sets, w);
+            }
+            // every selected row shifted beyond all existing keys: no two rows ever share a key, whatever the order
+            let lo = self.cur[t].iter().filter_map(|r| if let Val::Int(i) = r[c] { Some(i) } else { None }).min().unwrap_or(0);
+            let hi = self.fresh[t][c].max(lo);
+            let shift = hi - lo + 1 + self.rng.below(5) as i128;
+            self.fresh[t][c] = hi + shift + 1;
+            self.tag("hist.update-key-shift");
+            let w = if self.rng.chance(1, 2) { None } else { self.hist_pred(t) };
+            let sets = vec![(c, E::Arith("add", b(E::Col(c)), b(lit_i(shift))))];
+            self.sim_update(t, &sets, &w);
+            return Stmt::Update(t, sets, w);
+        }
+        if plain.is_empty() {
+            return self.insert_stmt(t);
+        }
+        let c = *self.rng.pick(&plain);
+        self.tag("hist.update-plain");
+        let e = match tys[c] {
+            Ty::Int | Ty::BigInt => {
+                if self.rng.chance(1, 2) {
+                    E::Arith("add", b(E::Col(c)), b(lit_i(self.rng.range(1, 5) as i128)))
+                } else {
+                    E::Lit(self.plain_val(tys[c], true))
+                }
+            }
+            ty => E::Lit(self.plain_val(ty, true)),
+        };
+        let w = self.hist_pred(t);
+        let sets = vec![(c, e)];
+        self.sim_update(t, &sets, &w);
+        Stmt::Update(t, sets, w)
+    }
+
+    fn history(&mut self, ops: &mut Vec<Op>) {
+        let n = self.rng.range(0, 7) as usize;
+        let nt = self.db.len();
+        let mut i = 0;
+        while i < n {
+            i += 1;
+            let t = self.rng.below(nt as u64) as usize;
+            match self.rng.below(20) {
+                0..=3 => ops.push(Op::Stmt(self.insert_stmt(t))),
+                4..=8 => ops.push(Op::Stmt(self.update_stmt(t, true))),
+                9..=11 => ops.push(Op::Stmt(self.delete_stmt(t))),
+                12 => {
+                    if let Some(s) = self.reinsert_stmt(t) {
+                        ops.push(Op::Stmt(s));
+                    } else {
+                        let d = self.delete_stmt(t);
+                        ops.push(Op::Stmt(d));
+                        if let Some(s) = self.reinsert_stmt(t) {
+                            ops.push(Op::Stmt(s));
+                        }
+                    }
+                }
+                13 if self.region == Region::ReinsertInRollback && !self.cur[t].is_empty() => {
+                    // inside a session: delete one row by id and insert a row with the same unique keys again; roll back
+                    let saved = (self.cur.clone(), self.deleted.clone());
+                    let row = self.cur[t][self.rng.below(self.cur[t].len() as u64) as usize].clone();
+                    let w = Some(cmp("eq", E::Col(0), E::Lit(row[0].clone())));
+                    ops.push(Op::Begin);
+                    self.sim_delete(t, &w);
+                    ops.push(Op::Stmt(Stmt::Delete(t, w)));
+                    let tys = self.db[t].tys.clone();
+                    let again: Vec<Val> =
+                        (0..tys.len()).map(|c| if self.uniq[t].contains(&c) { row[c].clone() } else { self.plain_val(tys[c], true) }).collect();
+                    self.sim_insert(t, &[again.clone()]);
+                    ops.push(Op::Stmt(Stmt::Insert(t, vec![again.iter().map(|v| E::Lit(v.clone())).collect()])));
+                    let rollback = self.rng.chance(3, 4);
+                    if rollback {
+                        self.cur = saved.0;
+                        self.deleted = saved.1;
+                        ops.push(Op::Rollback);
+                        self.tag("reg.reinsert-in-rollback");
+                    } else {
+                        ops.push(Op::Commit);
+                        self.tag("hist.reinsert-in-commit");
+                    }
+                }
+                13..=15 => {
+                    // a session: rolled back (inserts and deletes only: a rolled-back UPDATE is C03's pinned finding) or committed
+                    let rollback = self.rng.chance(3, 5);
+                    let saved = (self.cur.clone(), self.deleted.clone());
+                    ops.push(Op::Begin);
+                    for _ in 0..self.rng.range(1, 3) {
+                        let t = self.rng.below(nt as u64) as usize;
+                        let s = match self.rng.below(if rollback { 2 } else { 3 }) {
+                            0 => self.insert_stmt(t),
+                            1 => self.delete_stmt(t),
+                            _ => self.update_stmt(t, true),
+                        };
+                        ops.push(Op::Stmt(s));
+                        // the session reads its own uncommitted changes — through the index and through the table
+                        if self.rng.chance(1, 3) {
+                            self.tag("q.in-session");
+                            let q = self.select();
+                            ops.push(Op::Stmt(Stmt::Select(q)));
+                        }
+                    }
+                    if rollback {
+                        self.tag("hist.rollback");
+                        self.cur = saved.0;
+                        self.deleted = saved.1;
+                        ops.push(Op::Rollback);
+                    } else {
+                        self.tag("hist.commit");
+                        ops.push(Op::Commit);
+                    }
+                }
+                16 | 17 => {
+                    self.tag("hist.vacuum");
+                    ops.push(Op::Vacuum);
+                }
+                _ if self.allow_analyze => {
+                    self.tag("hist.analyze");
+                    ops.push(self.analyze_op());
+                }
+                _ => ops.push(Op::Stmt(self.insert_stmt(t))),
+            }
+        }
+    }
+
+    fn analyze_op(&mut self) -> Op {
+        let r = *self.rng.pick(&[1000u32, 1000, 500, 100, 10, 1]);
+        let m = *self.rng.pick(&[10000usize, 1000, 50, 5, 1]);
+        Op::Analyze(r, m)
+    }
+
+    // ------------------------------------------------------------------ queries
+
+    /// literal compared with column c (joined-row index) of type ty, drawn near the data of (t, col)
+    fn near_lit(&mut self, t: usize, col: usize) -> E {
+        if self.rng.chance(1, 14) {
+            self.tag("lit.null");
+            return E::Lit(Val::Null);
+        }
+        let ty = self.db[t].tys[col];
+        let v = self.some_val(t, col);
+        match (ty, v) {
+            (Ty::Int | Ty::BigInt, Val::Int(i)) => {
+                if self.rng.chance(1, 12) {
+                    // a literal outside the 32-bit range against any integer column
+                    self.tag("lit.wide");
+                    return lit_i(*self.rng.pick(&[3_000_000_000i128, -3_000_000_000, 2147483648, -2147483649]));
+                }
+                lit_i(i + self.rng.range(-1, 1) as i128)
+            }
+            (_, v) => E::Lit(v),
+        }
+    }
+
+    /// an atom over column `jc` of the joined row, which is column `c` of table `t`
+    fn atom(&mut self, jc: usize, t: usize, c: usize) -> E {
+        let ty = self.db[t].tys[c];
+        let col = E::Col(jc);
+        match ty {
+            Ty::Bool => match self.rng.below(3) {
+                0 => col,
+                1 => E::Not(b(col)),
+                _ => cmp("eq", col, E::Lit(Val::Bool(self.rng.chance(1, 2)))),
+            },
+            Ty::Text => match self.rng.below(6) {
+                0 => E::Like(self.rng.chance(1, 3), b(col), b(E::Lit(Val::Text(self.rng.pick(&["a%", "%b", "_", "%", "x_", "w00%"]).as_bytes().to_vec())))),
+                1 => E::IsNull(self.rng.chance(1, 2), b(col)),
+                2 => {
+                    let l = self.near_lit(t, c);
+                    cmp(*self.rng.pick(&["lt", "le", "gt", "ge"]), col, l)
+                }
+                3 => {
+                    let l = self.near_lit(t, c);
+                    cmp("eq", l, col)
+                }
+                _ => {
+                    let l = self.near_lit(t, c);
+                    cmp(*self.rng.pick(&["eq", "eq", "ne"]), col, l)
+                }
+            },
+            _ => {
+                let l = self.near_lit(t, c);
+                match self.rng.below(16) {
+                    0..=2 => cmp("eq", col, l),
+                    3 => cmp("eq", l, col),
+                    4..=6 => cmp(*self.rng.pick(&["lt", "le", "gt", "ge"]), col, l),
+                    7 | 8 => cmp(*self.rng.pick(&["lt", "le", "gt", "ge"]), l, col),
+                    9 => cmp("ne", col, l),
+                    10 => {
+                        let hi = self.near_lit(t, c);
+                        E::Between(self.rng.chance(1, 4), b(col), b(l), b(hi))
+                    }
+                    11 => {
+                        let x = self.near_lit(t, c);
+                        E::InList(self.rng.chance(1, 4), b(col), vec![l, x])
+                    }
+                    12 => E::IsNull(self.rng.chance(1, 2), b(col)),
+                    13 => cmp(*self.rng.pick(&["eq", "lt", "ge"]), E::Arith(*self.rng.pick(&["add", "sub"]), b(col), b(lit_i(self.rng.range(0, 3) as i128))), l),
+                    14 => cmp(*self.rng.pick(&["eq", "gt"]), E::Neg(b(col)), l),
+                    _ => cmp("eq", col, l),
+                }
+            }
+        }
+    }
+
+    /// a predicate over the given (joined-row index, table, column) triples; `prefer`: columns to favour (indexed ones)
+    fn pred(&mut self, cols: &[(usize, usize, usize)], prefer: &[(usize, usize, usize)], depth: u32) -> E {
+        let pick = |g: &mut Self| -> (usize, usize, usize) {
+            if !prefer.is_empty() && g.rng.chance(3, 5) { *g.rng.pick(prefer) } else { *g.rng.pick(cols) }
+        };
+        if depth == 0 {
+            let (jc, t, c) = pick(self);
+            return self.atom(jc, t, c);
+        }
+        match self.rng.below(10) {
+            0..=5 => {
+                self.tag("where.and");
+                and(self.pred(cols, prefer, depth - 1), self.pred(cols, prefer, depth - 1))
+            }
+            6 | 7 => {
+                self.tag("where.or");
+                E::Or(b(self.pred(cols, prefer, depth - 1)), b(self.pred(cols, prefer, depth - 1)))
+            }
+            8 => {
+                self.tag("where.not");
+                E::Not(b(self.pred(cols, prefer, depth - 1)))
+            }
+            _ => {
+                let (jc, t, c) = pick(self);
+                self.atom(jc, t, c)
+            }
+        }
+    }
+
+    /// `(A JOIN B ON p(A) AND q(B) [AND A θ B]) JOIN C ON B.x = C.y`: the shape join associativity rewrites into
+    /// `A JOIN (B JOIN C)` — the one-sided conjuncts of the inner condition must end up in the right place
+    fn from_assoc_bait(&mut self) -> Option<From> {
+        let nt = self.db.len();
+        let size = |g: &Self, t: usize| (g.cur[t].len() + 8) as u64;
+        let pick3: Vec<usize> = (0..3).map(|_| self.rng.below(nt as u64) as usize).collect();
+        if pick3.iter().map(|t| size(self, *t)).product::<u64>() > 30_000 {
+            return None;
+        }
+        let (ta, tb, tc) = (pick3[0], pick3[1], pick3[2]);
+        let (wa, wb) = (self.db[ta].tys.len(), self.db[tb].tys.len());
+        let ints = |g: &Self, t: usize, off: usize| -> Vec<usize> {
+            (0..g.db[t].tys.len()).filter(|c| is_int(g.db[t].tys[*c])).map(|c| off + c).collect()
+        };
+        let (ia, ib, ic) = (ints(self, ta, 0), ints(self, tb, wa), ints(self, tc, wa + wb));
+        let mut inner: Vec<E> = Vec::new();
+        let ca = self.rng.below(wa as u64) as usize;
+        inner.push(self.atom(ca, ta, ca));
+        let cb = self.rng.below(wb as u64) as usize;
+        inner.push(self.atom(wa + cb, tb, cb));
+        if self.rng.chance(1, 3) {
+            inner.push(cmp(*self.rng.pick(&["lt", "le", "ne", "ge"]), E::Col(*self.rng.pick(&ia)), E::Col(*self.rng.pick(&ib))));
+        }
+        if self.rng.chance(1, 2) {
+            inner.reverse();
+        }
+        let mut outer = vec![cmp("eq", E::Col(*self.rng.pick(&ib)), E::Col(*self.rng.pick(&ic)))];
+        if self.rng.chance(1, 4) {
+            let cc = self.rng.below(self.db[tc].tys.len() as u64) as usize;
+            outer.push(self.atom(wa + wb + cc, tc, cc));
+        }
+        self.tag("join.assoc-bait");
+        self.tag("join.inner");
+        let ab = From::Join("inner", b2(From::Table(ta)), b2(From::Table(tb)), conj(inner));
+        Some(From::Join("inner", b2(ab), b2(From::Table(tc)), conj(outer)))
+    }
+
+    fn from(&mut self) -> From {
+        if self.rng.chance(1, 10) {
+            if let Some(f) = self.from_assoc_bait() {
+                return f;
+            }
+        }
+        let nt = self.db.len();
+        let n = *self.rng.pick(&[1usize, 1, 1, 2, 2, 2, 3]);
+        let t0 = self.rng.below(nt as u64) as usize;
+        let mut f = From::Table(t0);
+        // the reference evaluator enumerates the whole cross product: keep it below ~30 000 rows
+        let size = |g: &Self, t: usize| (g.cur[t].len() + 8) as u64;
+        let mut product = size(self, t0);
+        for _ in 1..n {
+            let fits: Vec<usize> = (0..nt).filter(|t| product * size(self, *t) <= 30_000).collect();
+            if fits.is_empty() {
+                break;
+            }
+            let t = *self.rng.pick(&fits);
+            product *= size(self, t);
+            let kind = *self.rng.pick(&["inner", "inner", "inner", "inner", "left", "right", "full", "cross"]);
+            self.tag(&format!("join.{}", kind));
+            let (lls, lw) = leaves_of(&f, &self.db);
+            let on = if kind == "cross" {
+                None
+            } else {
+                let lcols: Vec<(usize, usize, usize)> =
+                    lls.iter().flat_map(|(lt, start)| (0..self.db[*lt].tys.len()).map(move |c| (start + c, *lt, c))).collect();
+                let rcols: Vec<(usize, usize, usize)> = (0..self.db[t].tys.len()).map(|c| (lw + c, t, c)).collect();
+                let lints: Vec<usize> = lcols.iter().filter(|x| is_int(self.db[x.1].tys[x.2])).map(|x| x.0).collect();
+                let rints: Vec<usize> = rcols.iter().filter(|x| is_int(self.db[x.1].tys[x.2])).map(|x| x.0).collect();
+                let mut cs: Vec<E> = Vec::new();
+                let k = self.rng.below(10);
+                if k < 6 {
+                    self.tag("join.equi");
+                    let (l, r) = (*self.rng.pick(&lints), *self.rng.pick(&rints));
+                    cs.push(if self.rng.chance(1, 3) { cmp("eq", E::Col(r), E::Col(l)) } else { cmp("eq", E::Col(l), E::Col(r)) });
+                    if self.rng.chance(1, 5) {
+                        self.tag("join.equi.2keys");
+                        let (l, r) = (*self.rng.pick(&lints), *self.rng.pick(&rints));
+                        cs.push(cmp("eq", E::Col(l), E::Col(r)));
+                    }
+                } else if k < 8 {
+                    self.tag("join.theta");
+                    let (l, r) = (*self.rng.pick(&lints), *self.rng.pick(&rints));
+                    cs.push(cmp(*self.rng.pick(&["lt", "le", "gt", "ge", "ne"]), E::Col(l), E::Col(r)));
+                }
+                // conjuncts over one side only (they stay in the ON clause for outer joins; the associativity rule moves them)
+                if cs.is_empty() || self.rng.chance(1, 3) {
+                    self.tag("join.on-one-side");
+                    let all: Vec<(usize, usize, usize)> = if self.rng.chance(1, 2) { lcols.clone() } else { rcols.clone() };
+                    let x = *self.rng.pick(&all);
+                    cs.push(self.atom(x.0, x.1, x.2));
+                }
+                if self.rng.chance(1, 2) {
+                    cs.reverse();
+                }
+                conj(cs)
+            };
+            f = From::Join(kind, b2(f), b2(From::Table(t)), on);
+        }
+        f
+    }
+
+    fn select(&mut self) -> Select {
+        let from = self.from();
+        let (ls, w) = leaves_of(&from, &self.db);
+        self.tag(match ls.len() {
+            1 => "q.single",
+            2 => "q.join2",
+            _ => "q.join3",
+        });
+        let tys = from_tys(&from, &self.db);
+        let all: Vec<(usize, usize, usize)> =
+            ls.iter().flat_map(|(t, start)| (0..self.db[*t].tys.len()).map(move |c| (start + c, *t, c))).collect();
+        let prefer: Vec<(usize, usize, usize)> =
+            all.iter().copied().filter(|(_, t, c)| self.ixs.iter().any(|x| x.table == *t && x.cols.contains(c))).collect();
+        let where_ = if self.rng.chance(9, 10) {
+            // mostly conjunctions (bounds are extracted conjunct by conjunct, conjuncts are pushed one by one)
+            let nconj = self.rng.range(1, 3);
+            let mut cs = Vec::new();
+            for _ in 0..nconj {
+                let d = *self.rng.pick(&[0u32, 0, 0, 1, 1, 2]);
+                if ls.len() > 1 && self.rng.chance(2, 3) {
+                    // a conjunct over one leaf only: can be pushed below the join
+                    let (t, start) = *self.rng.pick(&ls);
+                    let one: Vec<(usize, usize, usize)> = (0..self.db[t].tys.len()).map(|c| (start + c, t, c)).collect();
+                    let pf: Vec<(usize, usize, usize)> = one.iter().copied().filter(|x| prefer.contains(x)).collect();
+                    self.tag("where.one-side");
+                    cs.push(self.pred(&one, &pf, d));
+                } else {
+                    cs.push(self.pred(&all, &prefer, d));
+                }
+            }
+            conj(cs)
+        } else {
+            None
+        };
+        if let Some(e) = &where_ {
+            let mut cs = Vec::new();
+            conjuncts(e, &mut cs);
+            let indexable = cs.iter().any(|c| match c {
+                E::Cmp(op, a, d) if *op != "ne" => match (&**a, &**d) {
+                    (E::Col(i), E::Lit(_)) | (E::Lit(_), E::Col(i)) => prefer.iter().any(|p| p.0 == *i),
+                    _ => false,
+                },
+                _ => false,
+            });
+            if indexable {
+                self.tag("where.indexable");
+            }
+        }
+        let mut q = Select { distinct: false, from, where_, group_by: vec![], aggs: vec![], items: None, order_by: vec![], limit: None, offset: None };
+        let kind = self.rng.below(10);
+        if kind < 2 {
+            self.tag("q.agg");
+            let nkeys = self.rng.below(2) as usize;
+            for _ in 0..nkeys {
+                q.group_by.push(E::Col(self.rng.below(w as u64) as usize));
+            }
+            for _ in 0..self.rng.range(1, 2) {
+                let ints: Vec<usize> = (0..w).filter(|i| is_int(tys[*i])).collect();
+                let f = *self.rng.pick(&["cnt*", "cnt", "sum", "min", "max"]);
+                let arg = match f {
+                    "cnt*" => None,
+                    "sum" => Some(E::Col(*self.rng.pick(&ints))),
+                    _ => Some(E::Col(self.rng.below(w as u64) as usize)),
+                };
+                q.aggs.push(super::sql::Agg { f, arg });
+            }
+            return q;
+        }
+        let nout;
+        if self.rng.chance(1, 2) {
+            nout = w;
+        } else {
+            let n = self.rng.range(1, 3) as usize;
+            let mut items = Vec::new();
+            for _ in 0..n {
+                let i = self.rng.below(w as u64) as usize;
+                items.push(if is_int(tys[i]) && self.rng.chance(1, 5) {
+                    self.tag("project.arith");
+                    E::Arith("add", b(E::Col(i)), b(lit_i(self.rng.range(0, 3) as i128)))
+                } else {
+                    E::Col(i)
+                });
+            }
+            nout = n;
+            q.items = Some(items);
+        }
+        if self.rng.chance(1, 6) {
+            self.tag("q.distinct");
+            q.distinct = true;
+        }
+        match self.rng.below(10) {
+            0 | 1 => {
+                self.tag("q.orderby.partial");
+                let p = self.rng.below(nout as u64) as usize;
+                q.order_by.push((p, self.rng.chance(1, 2)));
+            }
+            2 | 3 => {
+                self.tag("q.orderby.total");
+                let mut pos: Vec<usize> = (0..nout).collect();
+                self.rng.shuffle(&mut pos);
+                for p in pos {
+                    q.order_by.push((p, self.rng.chance(1, 2)));
+                }
+                if self.rng.chance(2, 3) {
+                    self.tag("q.limit");
+                    q.limit = Some(self.rng.below(6));
+                    if self.rng.chance(1, 2) {
+                        q.offset = Some(self.rng.below(4));
+                    }
+                }
+            }
+            _ => {}
+        }
+        q
+    }
+}
+
+fn b2(f: From) -> Box<From> {
+    Box::new(f)
+}
+
+fn gen_case(rng: &mut Rng) -> (String, BTreeSet<String>) {
+    let region = match rng.below(50) {
+        0..=5 => Region::UpdateIndexed,
+        6 | 7 => Region::ReinsertInRollback,
+        8 | 9 => Region::CatalogGrowth,
+        10 => Region::MixedKey,
+        _ => Region::None,
+    };
+    let mut g =
+        G { rng, tags: BTreeSet::new(), db: vec![], ixs: vec![], uniq: vec![], cur: vec![], fresh: vec![], deleted: vec![], region, inserted: vec![], allow_analyze: false };
+    g.make_db();
+    let mut ops: Vec<Op> = Vec::new();
+    g.history(&mut ops);
+    // a case of a region really enters it
+    match g.region {
+        Region::UpdateIndexed if !g.tags.contains("reg.update-indexed") => {
+            for _ in 0..6 {
+                let t = g.rng.below(g.db.len() as u64) as usize;
+                let s = g.update_stmt(t, true);
+                ops.push(Op::Stmt(s));
+                if g.tags.contains("reg.update-indexed") {
+                    break;
+                }
+            }
+        }
+        Region::ReinsertInRollback if !g.tags.contains("reg.reinsert-in-rollback") => {
+            if let Some(t) = (0..g.db.len()).find(|t| !g.cur[*t].is_empty()) {
+                let saved = (g.cur.clone(), g.deleted.clone());
+                let row = g.cur[t][g.rng.below(g.cur[t].len() as u64) as usize].clone();
+                let w = Some(cmp("eq", E::Col(0), E::Lit(row[0].clone())));
+                ops.push(Op::Begin);
+                ops.push(Op::Stmt(Stmt::Delete(t, w)));
+                ops.push(Op::Stmt(Stmt::Insert(t, vec![row.iter().map(|v| E::Lit(v.clone())).collect()])));
+                ops.push(Op::Rollback);
+                g.cur = saved.0;
+                g.deleted = saved.1;
+                g.tag("reg.reinsert-in-rollback");
+            }
+        }
+        Region::MixedKey => {
+            let s = g.update_stmt(0, false);
+            ops.push(Op::Stmt(s));
+        }
+        _ => {}
+    }
+    // where the late database creates its indexes: mostly after the history, sometimes in its middle
+    if !g.ixs.is_empty() && g.rng.chance(9, 10) {
+        let in_session = |ops: &[Op], pos: usize| {
+            let mut open = false;
+            for o in &ops[..pos] {
+                match o {
+                    Op::Begin => open = true,
+                    Op::Rollback | Op::Commit => open = false,
+                    _ => {}
+                }
+            }
+            open
+        };
+        let mut pos = ops.len();
+        if g.rng.chance(1, 3) && !ops.is_empty() {
+            pos = g.rng.below(ops.len() as u64 + 1) as usize;
+            while in_session(&ops, pos) {
+                pos += 1;
+            }
+            g.tag("mkix.mid-history");
+        } else {
+            g.tag("mkix.after-history");
+        }
+        ops.insert(pos, Op::MkIx);
+    }
+    let nq = g.rng.range(2, 5) as usize;
+    for _ in 0..nq {
+        let q = g.select();
+        match g.rng.below(10) {
+            0..=3 if g.allow_analyze => {
+                // the same query before and after ANALYZE
+                g.tag("q.around-analyze");
+                ops.push(Op::Stmt(Stmt::Select(q.clone())));
+                let a = g.analyze_op();
+                ops.push(a);
+                ops.push(Op::Stmt(Stmt::Select(q)));
+            }
+            4 => {
+                // … and around a further piece of history
+                ops.push(Op::Stmt(Stmt::Select(q.clone())));
+                let nt = g.db.len();
+                let t = g.rng.below(nt as u64) as usize;
+                let s = match g.rng.below(3) {
+                    0 => g.insert_stmt(t),
+                    1 => g.delete_stmt(t),
+                    _ => g.update_stmt(t, true),
+                };
+                ops.push(Op::Stmt(s));
+                ops.push(Op::Stmt(Stmt::Select(q)));
+                g.tag("q.around-dml");
+            }
+            _ => ops.push(Op::Stmt(Stmt::Select(q))),
+        }
+    }
+    let line = show_case(&g.db, &g.ixs, &ops);
+    (line, g.tags)
+}
+
+fn gen_all(rng: &mut Rng, tier: Tier) -> Vec<Case> {
+    let n = match tier {
+        Tier::Quick => 900,
+        Tier::Thorough => 9000,
+    };
+    let lines: Vec<(String, BTreeSet<String>)> = (0..n).map(|_| gen_case(rng)).collect();
+    // Measure, on the real planner, how often the forms of a query really get different plans (EXPLAIN only).  The
+    // engine runs in supervised children (`axh run plan` on `measure <case>` lines) so that a hang or a crash of the
+    // code under test costs measurements, not the generation: after a batch that is mostly lost, measuring stops.
+    let mut facts: Vec<BTreeMap<String, usize>> = Vec::new();
+    let exe = std::env::current_exe().ok();
+    let dir = std::env::temp_dir().join(format!("axh-plan-measure-{}", std::process::id()));
+    let _ = std::fs::create_dir_all(&dir);
+    for (bno, batch) in lines.chunks(150).enumerate() {
+        let Some(exe) = exe.as_ref() else { break };
+        let cf = dir.join(format!("b{}.cases", bno));
+        let of = dir.join(format!("b{}.out", bno));
+        let text: String = batch.iter().map(|(l, _)| format!("measure {}\n", l)).collect();
+        if std::fs::write(&cf, text).is_err() {
+            break;
+        }
+        let ok = std::process::Command::new(exe)
+            .args(["run", "plan", "--cases"])
+            .arg(&cf)
+            .arg("--out")
+            .arg(&of)
+            .args(["--jobs", "8"])
+            .env("AXH_PLAN_TIMEOUT_MS", "8000")
+            .stdout(std::process::Stdio::null())
+            .status()
+            .map(|s| s.success())
+            .unwrap_or(false);
+        let outs: Vec<String> = if ok { std::fs::read_to_string(&of).unwrap_or_default().lines().map(|l| l.to_string()).collect() } else { vec![] };
+        let mut lost = 0;
+        for k in 0..batch.len() {
+            let mut f = BTreeMap::new();
+            match outs.get(k).and_then(|o| o.strip_prefix("facts")) {
+                Some(rest) => {
+                    for kv in rest.split_whitespace() {
+                        if let Some((a, b)) = kv.split_once('=') {
+                            if let Ok(n) = b.parse::<usize>() {
+                                f.insert(a.to_string(), n);
+                            }
+                        }
+                    }
+                }
+                None => {
+                    lost += 1;
+                    f.insert("unmeasured".to_string(), 1);
+                }
+            }
+            facts.push(f);
+        }
+        if lost * 2 > batch.len() {
+            break;
+        }
+    }
+    let _ = std::fs::remove_dir_all(&dir);
+    let nrules = match tier {
+        Tier::Quick => 1500,
+        Tier::Thorough => 15000,
+    };
+    let mut rrng = rng.fork("rules");
+    let rule_cases: Vec<Case> = (0..nrules).map(|_| gen_rule_case(&mut rrng)).collect();
+    let mut all: Vec<Case> = lines
+        .into_iter()
+        .enumerate()
+        .map(|(i, (line, tags))| {
+            let mut tags: Vec<String> = tags.into_iter().collect();
+            if let Some(f) = facts.get(i) {
+                // one tag occurrence per measured event, so that the histogram of the evidence adds them up
+                for (k, n) in f {
+                    for _ in 0..(*n).min(40) {
+                        tags.push(format!("m.{}", k));
+                    }
+                }
+            }
+            tags.push("nt".into());
+            Case { line, tags }
+        })
+        .collect();
+    all.extend(rule_cases);
+    all
+}
+
+impl Engine for PlanEngine {
+    fn gen_cases(&self, rng: &mut Rng, tier: Tier) -> Vec<Case> {
+        gen_all(rng, tier)
+    }
+
+    fn exec(&mut self, line: &str) -> String {
+        let debug = std::env::var_os("AXH_SQL_DEBUG").is_some();
+        if let (true, Some(rest)) = (debug, line.strip_prefix("raw ")) {
+            return raw(rest);
+        }
+        if let (true, Some(rest)) = (debug, line.strip_prefix("show ")) {
+            return show_sql(rest);
+        }
+        install_worker_panic_recorder();
+        if line.starts_with("rule ") {
+            return run_rule_case(line);
+        }
+        if let Some(rest) = line.strip_prefix("measure ") {
+            let o = run_case(rest, false);
+            if o.line.starts_with("bad-op") || o.line.starts_with("setup-failed") {
+                return "nofacts".into();
+            }
+            return format!("facts {}", o.facts.iter().map(|(k, v)| format!("{}={}", k, v)).collect::<Vec<_>>().join(" "));
+        }
+        run_case(line, true).line
+    }
+
+    fn timeout_ms(&self) -> u64 {
+        std::env::var("AXH_PLAN_TIMEOUT_MS").ok().and_then(|v| v.parse().ok()).unwrap_or(20_000)
     }
 }
 
